@@ -6,27 +6,43 @@ import core
 PROP = "C17"
 COUNT = {"quick": 260, "thorough": 3000, "search": 900}
 PARALLEL = True
-RULE = ("three case kinds from one PRNG. mdoc (50%): texts from a grammar - header entries (int / float / negative / text values), 0..3 "
-        "titles, ZValue (10% FrameSet) sections with 1..80 images, per image a TiltAngle (distinct, negative and positive, 0..4 decimals), "
+RULE = ("four case kinds from one PRNG. mdoc (44%): texts from a grammar - header entries (int / float / negative / text values), 0..3 "
+        "titles, ZValue (10% FrameSet) sections with 1..80 images, per image a TiltAngle (distinct, negative and positive, 0..4 decimals; in 12% of the texts also "
+        "'+5', '1e-3', '0.00001' spellings that float() reads), "
         "ExposureDose, PriorRecordDose and 0..6 further keys with int / float (<=15 significant digits, leading/trailing zeros, '.5', '5.') / "
-        "negative / exponent-form / multi-word text values, random blanks around '=' and at line ends; then an op sequence of sort_by_tilt and "
-        "remove_images (any index subset incl. negative indices, kept_only both ways), write(removed both ways), re-read; 6% malformed texts the "
-        "reader must refuse. loaders (27%): tilt / dose files with 1..80 values, gctf STAR (with / without rlnPhaseShift) and ctffind4 text with "
+        "negative / exponent-form / multi-word text values, random blanks around '=' and at line ends; then an op sequence of sort_by_tilt (reset_z_value both ways, "
+        "also on FrameSet mdocs = class of C17-K3) and "
+        "remove_images (any index subset incl. negative indices, kept_only both ways), write(removed both ways), re-read; keywords OMITTED in ~40% of the calls whose "
+        "value is the documented default; 6% malformed texts the "
+        "reader must refuse; 10% texts of the shapes the strict model does not describe: duplicate header keys and float() tilt spellings are FOLLOWED by the extended "
+        "model parseMdocX; sections with different key sets (pandas fills NaN, written as 'key = nan', re-read as text), a '[' line or a repeated key inside a section, "
+        "section values only int() accepts ('+3', '1_0'), TiltAngle nan / inf / with '_' are NAMED CLASSES OUTSIDE THE QUANTIFIER (model answer whyNone): the judge compares "
+        "nothing there and counts the case under mdoc_outside_class - it never reports agreement. "
+        "g2 (10%): cross-call state - ONE integer ndarray (or list) of image numbers applied through mdoc.remove_images to 2..3 mdocs (array compared before / after "
+        "every call, every call judged like a first one); ONE path read, edited in place, read again unchanged, rewritten (also with the same byte length), read a third time. "
+        "loaders (24%): tilt / dose files with 1..80 values, gctf STAR (with / without rlnPhaseShift, the rln columns in canonical, alphabetical, angle-first, "
+        "phase-before-V, V-before-U, reversed and shuffled FILE order) and ctffind4 text with "
         "1..80 rows; input dispatch of tlt_load / total_dose_load (ndarray, list, path with .tlt / .rawtlt / .txt / .csv / no extension / "
-        ".mdoc, empty array / list / file, sort_angles both ways) and of defocus_load (DataFrame, Nx5 / Nx4 array, path with file_type in any case, unknown type). wedge (23%): 1..5 tomograms, per-tomogram dimensions and z-shifts, 1..80 ascending tilts, optional ctf (gctf / ctffind4 / "
-        "array) and dose (file / array / mdoc) inputs, file and array inputs, 10% with a tomogram listed twice (interleaved), STAR output re-read and compared "
-        "with the model's table (columns, cells), EM list, sg->em conversion. "
-        "non-trivial = mdoc with >=3 images, >=1 negative tilt, >=1 float and >=1 text cell and >=1 removed image; loaders with >=3 rows; wedge "
+        ".mdoc, empty array / list / file, sort_angles both ways) and of defocus_load (DataFrame, Nx5 / Nx4 array, path with file_type in any case or omitted, unknown type); "
+        "dtype / element type of every result recorded, caller-owned inputs compared before / after. wedge (22%): 1..5 tomograms, per-tomogram dimensions and z-shifts "
+        "(tables in another row order than the tomogram list, with rows of further tomograms), 1..80 tilts in ascending or acquisition (unsorted, 35%) FILE order, optional ctf (gctf / ctffind4 / "
+        "array) and dose (file / array / mdoc) inputs, file and array inputs, voltage / amp_contrast / cs / z_shift / ctf_file_type omitted in ~30% (documented defaults), "
+        "10% with a tomogram listed twice (interleaved), STAR output re-read and compared "
+        "with the model's table (columns, cells), EM list, sg->em conversion; create_wedge_list_sg called twice with the same arrays. "
+        "non-trivial = mdoc with >=3 images, >=1 negative tilt, >=1 float and >=1 text cell and >=1 removed image; g2 with a removal in every call; loaders with >=3 rows; wedge "
         "with >=2 tomograms of different lengths; distinct = distinct case content")
 ASSUMPTIONS = ["Python float(s) followed by str() of a decimal with <= 15 significant digits prints the canonical decimal (plain form for 1e-4 <= x < 1e16, "
                "exponent form otherwise) - probed on every run (probe py-float-repr)",
                "numpy float64 str() = Python float repr (TiltAngle column) - probed (probe np-float64-str)",
                "DataFrame.sort_values on distinct keys = the stable merge sort of the model (ties are not generated)",
-               "float32 / float64 arithmetic of numpy agrees with exact rational arithmetic within rel. 2e-6 (float32 paths) / 1e-9 (float64 paths)",
-               "mdoc sections all carry the same key list, keys are distinct (grammar); other shapes are outside the model",
+               "numeric results are compared with the numbers of the files within rel. 2e-6 (any float width >= float32; that the one-value-per-line reader uses float32 is a "
+               "translator anchor, one_value_dtype_documented) / 1e-9 (float64 paths)",
+               "mdoc sections all carry the same key list with distinct keys, no '[' line inside a section, section values and TiltAngle in decimal / exponent spelling: the "
+               "complement is named (whyNone) and explicitly outside the quantifier; the judge skips it and counts it",
                "the STAR layer round-trips well-formed tables (property C02): hypothesis StarRoundTrip of wedge_via_file / sg_to_em_via_file; the real file is "
                "re-read on every wedge case and compared with the model's table (columns exactly, cells within 1e-5)",
-               "WARP xml and csv inputs of the loaders are outside the model (the dispatch to them is modelled, their readers are not)"]
+               "WARP xml and csv inputs of the loaders are outside the model (the dispatch to them is modelled, their readers are not; the whole bodies of tlt_load, "
+               "total_dose_load, defocus_load, indices_load are pinned by normalised dumps: body_digests_documented)"]
 TRUSTED = ["harness line splitting of mdoc text (str.split('\\n')) and the canonicalisation of pandas cells in props/c17.py",
            "Starfile.read/write (property C02) when a wedge list goes through a STAR file"]
 
@@ -50,6 +66,136 @@ def _consts_in(node):
     return [n.value for n in ast.walk(node) if isinstance(n, ast.Constant)]
 
 
+# ---- rename-insensitive views of a function (G5) ----------------------------------------------------------------------
+def _locals_of(fn):
+    """names bound inside the function (assignment / for / with / comprehension targets), in source order; parameters are API and
+    keep their names"""
+    params = {a.arg for a in fn.args.args + fn.args.kwonlyargs + fn.args.posonlyargs}
+    if fn.args.vararg:
+        params.add(fn.args.vararg.arg)
+    if fn.args.kwarg:
+        params.add(fn.args.kwarg.arg)
+    order = []
+
+    class V(ast.NodeVisitor):
+        def visit_Name(self, n):
+            if isinstance(n.ctx, ast.Store) and n.id not in params and n.id not in order:
+                order.append(n.id)
+
+        def visit_FunctionDef(self, n):
+            if n is fn:
+                self.generic_visit(n)
+    V().visit(fn)
+    return order
+
+
+def _alpha(fn):
+    """normalised text of the function body: docstring dropped, every local variable renamed to v0, v1, … in order of first binding
+    (a harmless rename of a local leaves the text unchanged; any added / removed / edited statement changes it)"""
+    import copy
+    fn2 = copy.deepcopy(fn)
+    names = {n: f"v{i}" for i, n in enumerate(_locals_of(fn2))}
+
+    class R(ast.NodeTransformer):
+        def visit_Name(self, n):
+            if n.id in names:
+                return ast.copy_location(ast.Name(id=names[n.id], ctx=n.ctx), n)
+            return n
+    fn2 = R().visit(fn2)
+    body = fn2.body
+    if body and isinstance(body[0], ast.Expr) and isinstance(body[0].value, ast.Constant) and isinstance(body[0].value.value, str):
+        body = body[1:]
+    return "\n".join(ast.unparse(st) for st in body)
+
+
+def _digest(fn):
+    import hashlib
+    sig = ast.unparse(fn.args)
+    return hashlib.sha1((sig + "\n" + _alpha(fn)).encode()).hexdigest()[:16]
+
+
+def _inline_assignments(fn):
+    """[(target text, value text)] for every assignment of the function, in source order, where every local variable that was assigned
+    ONCE by a plain `name = expr` before is replaced by that expression (recursively): the result names only parameters, attributes
+    and calls, never a local — so it does not depend on how locals are called"""
+    import copy
+    counts = {}
+    for n in ast.walk(fn):
+        if isinstance(n, (ast.Assign, ast.AugAssign, ast.For, ast.With, ast.comprehension)):
+            tg = n.targets if isinstance(n, ast.Assign) else ([n.target] if hasattr(n, "target") else [])
+            for t in tg:
+                for m in ast.walk(t):
+                    if isinstance(m, ast.Name) and isinstance(m.ctx, ast.Store):
+                        counts[m.id] = counts.get(m.id, 0) + 1
+    env = {}
+
+    class S(ast.NodeTransformer):
+        def visit_Name(self, n):
+            if isinstance(n.ctx, ast.Load) and n.id in env:
+                return copy.deepcopy(env[n.id])
+            return n
+
+    def subst(e):
+        return S().visit(copy.deepcopy(e))
+    out = []
+
+    def walk(stmts):
+        for st in stmts:
+            if isinstance(st, ast.Assign) and len(st.targets) == 1:
+                val = subst(st.value)
+                t = st.targets[0]
+                if isinstance(t, ast.Name):
+                    out.append((t.id, core.norm_expr(val)))
+                    if counts.get(t.id, 0) == 1 or t.id in {a.arg for a in fn.args.args}:
+                        env[t.id] = val
+                    else:
+                        env.pop(t.id, None)
+                else:
+                    base = t
+                    while isinstance(base, (ast.Subscript, ast.Attribute)):
+                        base = base.value
+                    key = core.norm_expr(t.slice) if isinstance(t, ast.Subscript) else ast.unparse(t)
+                    out.append(((base.id if isinstance(base, ast.Name) else "?") + "[" + key + "]", core.norm_expr(val)))
+            for fld in ("body", "orelse"):
+                if hasattr(st, fld) and isinstance(getattr(st, fld), list) and not isinstance(st, (ast.FunctionDef, ast.ClassDef)):
+                    walk(getattr(st, fld))
+    walk(fn.body)
+    return out
+
+
+# the DOCUMENTED values: what the model falls back to when an anchor is missing (never a value that silently changes the model)
+DOC = dict(prefixes=[("[ZValue", "ZValue"), ("[FrameSet", "FrameSet")], kv=["", " = ", "\n"], sec=["[", " = ", "]\n"], tit=["[", "]\n"],
+           sort=["TiltAngle", True], tilt="TiltAngle", removed="Removed", dose=["ExposureDose", "PriorRecordDose", True],
+           factor="0.0001", divisor="2.0", wedge_cols=["tomo_num", "pixelsize", "tomo_x", "tomo_y", "tomo_z", "z_shift", "tilt_angle", "defocus",
+                                                           "exposure", "voltage", "amp_contrast", "cs"],
+           em_cols=["tomo_num", "min_angle", "max_angle"], star=["data_stopgap_wedgelist", False],
+           s2e=["tomo_num", "tilt_angle", "min", "max"],
+           tlt=dict(types=["np.ndarray", "list", "str"], table=[[".mdoc", "mdoc.Mdoc"], [".xml", "get_data_from_warp_xml"]], default="one_value_per_line_read",
+                    returns=[["np.ndarray", "input_tlt"], ["list", "np.asarray(input_tlt)"]], sort_files_only=True),
+           dosel=dict(types=["np.ndarray", "list", "str"], table=[[".csv", "pd.read_csv"], [".mdoc", "mdoc.Mdoc"], [".xml", "get_data_from_warp_xml"]],
+                      default="one_value_per_line_read", returns=[["np.ndarray", "input_dose"], ["list", "np.asarray(input_dose)"]]),
+           defocus=dict(types=["pd.DataFrame", "str"], table=[["gctf", "gctf_read"], ["ctffind4", "ctffind4_read"], ["warp", "warp_ctf_read"]], lowers=True,
+                        array_columns=["defocus1", "defocus2", "astigmatism", "phase_shift", "defocus_mean"]),
+           wedge_assign=[["tilt_angle", "ioutils.tlt_load(tlt_file)"],
+                         ["defocus", "ioutils.defocus_load(ctf_file,ctf_file_type)['defocus_mean'].values"],
+                         ["exposure", "ioutils.total_dose_load(dose_file)"], ["tomo_num", "tomo_id"], ["pixelsize", "pixel_size"],
+                         ["['tomo_x','tomo_y','tomo_z']", "np.repeat(ioutils.dimensions_load(tomo_dim).values,ioutils.tlt_load(tlt_file).shape[0],axis=0)"],
+                         ["z_shift", "ioutils.z_shift_load(z_shift).values[0][0]"], ["voltage", "voltage"], ["amp_contrast", "amp_contrast"], ["cs", "cs"]],
+           gctf=dict(columns=["rlnDefocusU", "rlnDefocusV", "rlnDefocusAngle", "rlnPhaseShift"], phase="rlnPhaseShift", lo=0, hi=2),
+           dtype="np.float32", reset=["ZValue", False], indices=[True, True],
+           defaults=dict(write_removed=False, write_overwrite=False, remove_kept_only=True, sort_reset=False, mdoc_section_id="ZValue",
+                         script_from1=True, defocus_file_type="gctf", sg_z_shift="0.0", sg_ctf_type="gctf", sg_voltage="300.0", sg_amp="0.07", sg_cs="2.7",
+                         batch_z_shift="0.0", batch_ctf_type="gctf", batch_voltage="300.0", batch_amp="0.07", batch_cs="2.7", sg_drop_nan=True))
+# functions of which (also) branches run that the correspondence run never executes (.xml / .csv / warp / DateTime paths, csv / text
+# index files) or whose whole body is short enough to be pinned: a normalised dump of the whole body is anchored (G5)
+DIGEST_FUNCS = [("cryocat/ioutils.py", "tlt_load"), ("cryocat/ioutils.py", "total_dose_load"), ("cryocat/ioutils.py", "defocus_load"),
+                ("cryocat/ioutils.py", "indices_load"), ("cryocat/ioutils.py", "one_value_per_line_read"),
+                ("cryocat/mdoc.py", "Mdoc.__init__"), ("cryocat/mdoc.py", "Mdoc.remove_image"), ("cryocat/mdoc.py", "Mdoc.remove_images"),
+                ("cryocat/mdoc.py", "Mdoc.kept_images"), ("cryocat/mdoc.py", "Mdoc.removed_images"), ("cryocat/mdoc.py", "Mdoc.get_image_feature"),
+                ("cryocat/mdoc.py", "remove_images"), ("cryocat/mdoc.py", "sort_mdoc_by_tilt_angles"),
+                ("cryocat/wedgeutils.py", "check_data_consistency"), ("cryocat/wedgeutils.py", "load_wedge_list_sg")]
+
+
 def translate(src):
     M, I, W = "cryocat/mdoc.py", "cryocat/ioutils.py", "cryocat/wedgeutils.py"
 
@@ -66,7 +212,7 @@ def translate(src):
         if not out:
             raise core.AnchorMissing("line.startswith('[ZValue') / '[FrameSet'")
         return out
-    pre = src.anchor("Mdoc._read_mdoc:section prefixes", prefixes) or []
+    pre = src.anchor("Mdoc._read_mdoc:section prefixes", prefixes) or DOC["prefixes"]
 
     def write_formats():
         fn = src.find(M, "Mdoc.write")
@@ -80,22 +226,29 @@ def translate(src):
             if len(parts) == n + 1 and pred(parts):
                 return parts
         raise core.AnchorMissing("format string")
-    kv = src.anchor("Mdoc.write:'{} = {}\\n'", lambda: fmt_parts(lambda p: p[0] == "" and p[-1] == "\n", 2))
-    sec = src.anchor("Mdoc.write:'[{} = {}]\\n'", lambda: fmt_parts(lambda p: p[0] != "" and p[-1].endswith("\n"), 2))
-    tit = src.anchor("Mdoc.write:'[{}]\\n'", lambda: fmt_parts(lambda p: p[-1].endswith("\n"), 1))
+    kv = src.anchor("Mdoc.write:'{} = {}\\n'", lambda: fmt_parts(lambda p: p[0] == "" and p[-1] == "\n", 2)) or DOC["kv"]
+    sec = src.anchor("Mdoc.write:'[{} = {}]\\n'", lambda: fmt_parts(lambda p: p[0] != "" and p[-1].endswith("\n"), 2)) or DOC["sec"]
+    tit = src.anchor("Mdoc.write:'[{}]\\n'", lambda: fmt_parts(lambda p: p[-1].endswith("\n"), 1)) or DOC["tit"]
 
     def write_cond():
         fn = src.find(M, "Mdoc.write")
         for n in ast.walk(fn):
             if isinstance(n, ast.If) and "Removed" in ast.unparse(n.test):
-                t = core.norm_expr(n.test).replace('(', '').replace(')', '')
-                if t in ("removedornotremovedandnotrow['Removed']", "removedornotrow['Removed']"):
+                import copy
+                test = copy.deepcopy(n.test)
+                for m in ast.walk(test):        # the loop variable may have any name
+                    if isinstance(m, ast.Subscript) and isinstance(m.slice, ast.Constant) and m.slice.value == "Removed" and isinstance(m.value, ast.Name):
+                        m.value.id = "ROW"
+                t = core.norm_expr(test).replace('(', '').replace(')', '')
+                if t in ("removedornotremovedandnotROW['Removed']", "removedornotROW['Removed']"):
                     return True
-                if t in ("removedornotremovedandrow['Removed']", "removedorrow['Removed']"):
+                if t in ("removedornotremovedandROW['Removed']", "removedorROW['Removed']"):
                     return False
                 raise core.AnchorMissing("write condition rewritten: " + ast.unparse(n.test))
         raise core.AnchorMissing("write condition on row['Removed']")
     wc = src.anchor("Mdoc.write:row filter", write_cond)
+    if wc is None:
+        wc = True
 
     def sort_key():
         fn = src.find(M, "Mdoc.sort_by_tilt")
@@ -108,7 +261,7 @@ def translate(src):
                     asc = bool(ast.literal_eval(kw["ascending"]))
                 return [by, asc]
         raise core.AnchorMissing("sort_values(by=...)")
-    sk = src.anchor("Mdoc.sort_by_tilt:sort_values", sort_key) or ["?", True]
+    sk = src.anchor("Mdoc.sort_by_tilt:sort_values", sort_key) or DOC["sort"]
 
     def tilt_key():
         fn = src.find(M, "Mdoc._parse_images")
@@ -116,7 +269,7 @@ def translate(src):
             if isinstance(n, ast.Assign) and ast.unparse(n.value).endswith(".astype(float)"):
                 return n.targets[0].slice.value
         raise core.AnchorMissing("imgs[...].astype(float)")
-    tk = src.anchor("Mdoc._parse_images:float column", tilt_key) or "?"
+    tk = src.anchor("Mdoc._parse_images:float column", tilt_key) or DOC["tilt"]
 
     def removed_key():
         fn = src.find(M, "Mdoc.kept_images")
@@ -124,21 +277,20 @@ def translate(src):
         if txt == "self.imgs[self.imgs['Removed']==False]":
             return "Removed"
         raise core.AnchorMissing("kept_images: " + txt)
-    rk = src.anchor("Mdoc.kept_images", removed_key) or "?"
+    rk = src.anchor("Mdoc.kept_images", removed_key) or DOC["removed"]
 
     def dose_expr():
         fn = src.find(I, "total_dose_load")
-        keys = {}
-        plus = None
-        for n in ast.walk(fn):
-            if isinstance(n, ast.Assign) and isinstance(n.value, ast.Attribute) and n.value.attr == "values" and "get_image_feature" in ast.unparse(n.value):
-                keys[ast.unparse(n.targets[0])] = n.value.value.args[0].value
-            if isinstance(n, ast.Assign) and ast.unparse(n.targets[0]) == "total_dose" and isinstance(n.value, ast.BinOp):
-                plus = (type(n.value.op).__name__, sorted([ast.unparse(n.value.left), ast.unparse(n.value.right)]))
-        if plus is None or "image_dose" not in keys or "prior_dose" not in keys:
-            raise core.AnchorMissing("total_dose = image_dose + prior_dose")
-        return [keys["image_dose"], keys["prior_dose"], plus[0] == "Add" and plus[1] == ["image_dose", "prior_dose"]]
-    de = src.anchor("total_dose_load:mdoc dose", dose_expr) or ["?", "?", False]
+        pat = re.compile(r"mdoc\.Mdoc\(input_dose\)\.get_image_feature\('(\w+)'\)\.values([-+*/])mdoc\.Mdoc\(input_dose\)\.get_image_feature\('(\w+)'\)\.values")
+        for tgt, val in _inline_assignments(fn):
+            m = pat.fullmatch(val)
+            if m:
+                keys = sorted([m.group(1), m.group(3)])
+                if keys != ["ExposureDose", "PriorRecordDose"]:
+                    return [m.group(1), m.group(3), m.group(2) == "+"]
+                return ["ExposureDose", "PriorRecordDose", m.group(2) == "+"]
+        raise core.AnchorMissing("total_dose = <ExposureDose values> + <PriorRecordDose values> (after inlining the locals)")
+    de = src.anchor("total_dose_load:mdoc dose", dose_expr) or DOC["dose"]
 
     def factor(fname):
         def f():
@@ -152,8 +304,8 @@ def translate(src):
                         return repr(float(v.right.value))
             raise core.AnchorMissing(fname + ": * <const>")
         return f
-    fg = src.anchor("gctf_read:angstrom->micron factor", factor("gctf_read"))
-    fc = src.anchor("ctffind4_read:angstrom->micron factor", factor("ctffind4_read"))
+    fg = src.anchor("gctf_read:angstrom->micron factor", factor("gctf_read")) or DOC["factor"]
+    fc = src.anchor("ctffind4_read:angstrom->micron factor", factor("ctffind4_read")) or DOC["factor"]
 
     def mean_expr():
         res = []
@@ -174,16 +326,18 @@ def translate(src):
         if res[0] != res[1]:
             raise core.AnchorMissing("different divisors")
         return res[0]
-    md = src.anchor("gctf_read/ctffind4_read:defocus_mean", mean_expr)
+    md = src.anchor("gctf_read/ctffind4_read:defocus_mean", mean_expr) or DOC["divisor"]
 
     def tlt_default():
         fn = src.find(I, "tlt_load")
         d = fn.args.defaults[-1]
         txt = ast.unparse(fn)
-        if "np.sort(tilts)" not in txt:
-            raise core.AnchorMissing("tlt_load: np.sort(tilts)")
+        if not re.search(r"(\w+) = np\.sort\(\1\)", txt):
+            raise core.AnchorMissing("tlt_load: x = np.sort(x)")
         return bool(d.value)
     td = src.anchor("tlt_load:sort_angles default + np.sort", tlt_default)
+    if td is None:
+        td = True
 
     def wedge_cols():
         fn = src.find(W, "create_wedge_list_sg")
@@ -193,18 +347,25 @@ def translate(src):
                     if k.arg == "columns":
                         return src.literal(k.value)
         raise core.AnchorMissing("pd.DataFrame(columns=[...])")
-    wcols = src.anchor("create_wedge_list_sg:columns", wedge_cols) or []
+    wcols = src.anchor("create_wedge_list_sg:columns", wedge_cols) or DOC["wedge_cols"]
 
     def wedge_assign():
+        """what is assigned to every column of the table, with all local variables inlined (names only parameters and loader calls)"""
         fn = src.find(W, "create_wedge_list_sg")
-        out = []
+        df = None
         for n in ast.walk(fn):
-            if isinstance(n, ast.Assign) and isinstance(n.targets[0], ast.Subscript) and ast.unparse(n.targets[0].value) == "wedge_list_df" \
-                    and isinstance(n.targets[0].slice, ast.Constant):
-                out.append((n.lineno, n.targets[0].slice.value, core.norm_expr(n.value)))
-        out.sort()
-        return [[a, b] for _, a, b in out]
-    wass = src.anchor("create_wedge_list_sg:column assignments", wedge_assign) or []
+            if isinstance(n, ast.Assign) and isinstance(n.value, ast.Call) and ast.unparse(n.value.func) == "pd.DataFrame" and isinstance(n.targets[0], ast.Name) \
+                    and any(k.arg == "columns" for k in n.value.keywords):
+                df = n.targets[0].id
+        if df is None:
+            raise core.AnchorMissing("x = pd.DataFrame(columns=[...])")
+        out = []
+        for tgt, val in _inline_assignments(fn):
+            if tgt.startswith(df + "["):
+                key = tgt[len(df) + 1:-1]
+                out.append([key[1:-1] if key[:1] == "'" and key.count("'") == 2 else key, val])
+        return out
+    wass = src.anchor("create_wedge_list_sg:column assignments (locals inlined)", wedge_assign) or DOC["wedge_assign"]
 
     def em_cols():
         fn = src.find(W, "create_wedge_list_em_batch")
@@ -214,17 +375,21 @@ def translate(src):
                     if k.arg == "columns":
                         return src.literal(k.value)
         raise core.AnchorMissing("pd.DataFrame(columns=[...])")
-    ecols = src.anchor("create_wedge_list_em_batch:columns", em_cols) or []
+    ecols = src.anchor("create_wedge_list_em_batch:columns", em_cols) or DOC["em_cols"]
 
     def em_minmax():
         fn = src.find(W, "create_wedge_list_em_batch")
-        t = core.norm_expr(fn)
-        ok = "tilts_min.append(np.min(tilts))" in t and "tilts_max.append(np.max(tilts))" in t and \
-             "wedge_list_df['min_angle']=np.asarray(tilts_min)" in t and "wedge_list_df['max_angle']=np.asarray(tilts_max)" in t
+        t = _alpha(fn).replace(" ", "")
+        # locals in binding order: v0 table, v1 tomograms, v2 list of minima, v3 list of maxima, v4 loop variable, v5 file name, v6 tilts
+        ok = "v2.append(np.min(v6))" in t and "v3.append(np.max(v6))" in t and \
+             "v0['min_angle']=np.asarray(v2)" in t and "v0['max_angle']=np.asarray(v3)" in t and "v0['tomo_num']=v1" in t and \
+             "v6=ioutils.tlt_load(v5).astype(np.single)" in t and "v1=ioutils.tlt_load(tomo_list).astype(int)" in t
         if not ok:
             raise core.AnchorMissing("min/max collection rewritten")
         return True
     emm = src.anchor("create_wedge_list_em_batch:min/max", em_minmax)
+    if emm is None:
+        emm = True
 
     # ---- dispatch tables of the loaders (type chain, extension / file-type chain, default reader)
     def _if_chain(fn):
@@ -294,8 +459,8 @@ def translate(src):
             sort_elsewhere = any("np.sort(" in ast.unparse(st) for t, b in ch[:-1] if _isinstance_type(t, var) != "str" for st in b)
             return dict(types=types, table=table, default=dflt, returns=rets, sort_files_only=(sort_in_str and not sort_elsewhere))
         return f
-    tl = src.anchor("tlt_load:type chain + extension dispatch", loader_dispatch("tlt_load", "input_tlt")) or {}
-    dl = src.anchor("total_dose_load:type chain + extension dispatch", loader_dispatch("total_dose_load", "input_dose")) or {}
+    tl = src.anchor("tlt_load:type chain + extension dispatch", loader_dispatch("tlt_load", "input_tlt")) or DOC["tlt"]
+    dl = src.anchor("total_dose_load:type chain + extension dispatch", loader_dispatch("total_dose_load", "input_dose")) or DOC["dosel"]
 
     def dose_sort_default():
         fn = src.find(I, "total_dose_load")
@@ -305,13 +470,17 @@ def translate(src):
         d = fn.args.defaults[names.index("sort_mdoc") - (len(names) - len(fn.args.defaults))]
         return bool(ast.literal_eval(d))
     dsd = src.anchor("total_dose_load:sort_mdoc default", dose_sort_default)
+    if dsd is None:
+        dsd = True
 
     def defocus_dispatch():
         fn = src.find(I, "defocus_load")
         ch = _if_chain(fn)
         types = [_isinstance_type(t, "input_data") for t, _ in ch[:-1]]
         first = [core.norm_expr(st) for st in ch[0][1]]
-        if types[:1] != ["pd.DataFrame"] or first != ["defocus_df=input_data"]:
+        ret = [st for st in fn.body if isinstance(st, ast.Return)]
+        res = ast.unparse(ret[-1].value) if ret and isinstance(ret[-1].value, ast.Name) else "?"      # the result variable, whatever its name
+        if types[:1] != ["pd.DataFrame"] or first != [res + "=input_data"]:
             raise core.AnchorMissing("defocus_load: DataFrame branch rewritten")
         sbody = [b for t, b in ch[:-1] if _isinstance_type(t, "input_data") == "str"]
         if len(sbody) != 1 or len(sbody[0]) != 1 or not isinstance(sbody[0][0], ast.If):
@@ -334,13 +503,18 @@ def translate(src):
                 break
         cols = None
         for st in ch[-1][1]:
-            if isinstance(st, ast.Assign) and ast.unparse(st.targets[0]) == "df_columns":
+            if isinstance(st, ast.Assign) and isinstance(st.value, ast.List):
                 cols = src.literal(st.value)
         els = [core.norm_expr(st) for st in ch[-1][1]]
-        if cols is None or "defocus_df=pd.DataFrame(input_data,columns=df_columns)" not in els:
+        colvar = [ast.unparse(st.targets[0]) for st in ch[-1][1] if isinstance(st, ast.Assign) and isinstance(st.value, ast.List)]
+        if cols is None and colvar:
+            for st in ch[-1][1]:
+                if isinstance(st, ast.Assign) and ast.unparse(st.targets[0]) == colvar[0]:
+                    cols = src.literal(st.value)
+        if cols is None or not any(e == f"{res}=pd.DataFrame(input_data,columns={cv})" for e in els for cv in colvar):
             raise core.AnchorMissing("defocus_load: array branch rewritten")
         return dict(types=types, table=table, lowers=lowers, array_columns=cols)
-    dd = src.anchor("defocus_load:type chain + file-type dispatch", defocus_dispatch) or {}
+    dd = src.anchor("defocus_load:type chain + file-type dispatch", defocus_dispatch) or DOC["defocus"]
 
     def star_write_args():
         out = []
@@ -352,23 +526,124 @@ def translate(src):
             kw = {k.arg: k.value for k in calls[0].keywords}
             spec = src.literal(kw["specifiers"])
             numc = bool(src.literal(kw["number_columns"])) if "number_columns" in kw else True
-            if core.norm_expr(calls[0].args[0]) != "[wedge_list_df]" or len(spec) != 1:
+            if not re.fullmatch(r"\[\w+\]", core.norm_expr(calls[0].args[0])) or len(spec) != 1:
                 raise core.AnchorMissing(fname + ": Starfile.write arguments rewritten")
             out.append([spec[0], numc])
         if out[0] != out[1]:
             raise core.AnchorMissing("single and batch writer use different STAR arguments")
         return out[0]
-    swa = src.anchor("create_wedge_list_sg(_batch):Starfile.write specifier", star_write_args) or ["?", True]
+    swa = src.anchor("create_wedge_list_sg(_batch):Starfile.write specifier", star_write_args) or DOC["star"]
 
     def sg2em_groupby():
         fn = src.find(W, "wedge_list_sg_to_em")
-        t = core.norm_expr(fn)
-        ok = ("wedge_list_sg.groupby('tomo_num').agg(min_tilt_angle=('tilt_angle','min'),max_tilt_angle=('tilt_angle','max'))" in t
-              and "wedge_list_sg=load_wedge_list_sg(input_path)" in t and "wedge_list_em.reset_index(inplace=True)" in t)
-        if not ok:
+        t = _alpha(fn).replace(" ", "")
+        m = re.search(r"(\w+)=load_wedge_list_sg\(input_path\)", t)
+        if not m:
+            raise core.AnchorMissing("x = load_wedge_list_sg(input_path)")
+        v = m.group(1)
+        g = re.search(r"(\w+)=" + v + r"\.groupby\('tomo_num'\)\.agg\(min_tilt_angle=\('tilt_angle','min'\),max_tilt_angle=\('tilt_angle','max'\)\)", t)
+        if not g or (g.group(1) + ".reset_index(inplace=True)") not in t:
             raise core.AnchorMissing("groupby('tomo_num').agg(min, max) rewritten")
         return ["tomo_num", "tilt_angle", "min", "max"]
-    s2e = src.anchor("wedge_list_sg_to_em:groupby + agg", sg2em_groupby) or []
+    s2e = src.anchor("wedge_list_sg_to_em:groupby + agg", sg2em_groupby) or DOC["s2e"]
+
+    # ---- hardening pass: new anchors ---------------------------------------------------------------------------------------
+    def one_value_dtype():
+        fn = src.find(I, "one_value_per_line_read")
+        names = [a.arg for a in fn.args.args]
+        d = fn.args.defaults[names.index("data_type") - (len(names) - len(fn.args.defaults))]
+        calls = [n for n in ast.walk(fn) if isinstance(n, ast.Call) and ast.unparse(n.func) == "pd.read_csv"]
+        if len(calls) != 1 or not any(k.arg == "dtype" and ast.unparse(k.value) == "data_type" for k in calls[0].keywords):
+            raise core.AnchorMissing("pd.read_csv(..., dtype=data_type)")
+        return ast.unparse(d)
+    ovd = src.anchor("one_value_per_line_read:data_type default (float32 is pinned HERE, not in the oracle)", one_value_dtype) or DOC["dtype"]
+
+    def gctf_select():
+        fn = src.find(I, "gctf_read")
+        lists = []
+        for n in ast.walk(fn):
+            if isinstance(n, ast.Subscript) and isinstance(n.slice, ast.List) and all(isinstance(e, ast.Constant) for e in n.slice.elts):
+                lists.append([e.value for e in n.slice.elts])
+        lists.sort(key=len)
+        if len(lists) != 2 or lists[1][:-1] != lists[0]:
+            raise core.AnchorMissing("gctf_read: the columns are no longer selected by two explicit name lists df[[...]]")
+        tests = [ast.unparse(n.test) for n in ast.walk(fn) if isinstance(n, ast.If)]
+        if not any(re.fullmatch(r"'" + lists[1][-1] + r"' in \w+\.columns", t) for t in tests):
+            raise core.AnchorMissing("gctf_read: if '<phase>' in df.columns")
+        sl = None
+        for n in ast.walk(fn):
+            if isinstance(n, ast.Assign) and isinstance(n.targets[0], ast.Subscript) and "iloc" in ast.unparse(n.targets[0]):
+                m = re.fullmatch(r"(\w+)\.iloc\[:,(\d+):(\d+)\]", core.norm_expr(n.targets[0]))
+                if m and core.norm_expr(n.value).startswith(core.norm_expr(n.targets[0]) + "*"):
+                    sl = [int(m.group(2)), int(m.group(3))]
+        if sl is None:
+            raise core.AnchorMissing("gctf_read: x.iloc[:, a:b] = x.iloc[:, a:b] * c")
+        rn = [n for n in ast.walk(fn) if isinstance(n, ast.Call) and ast.unparse(n.func).endswith(".rename")]
+        want = {"rlnDefocusU": "defocus1", "rlnDefocusV": "defocus2", "rlnDefocusAngle": "astigmatism", "rlnPhaseShift": "phase_shift"}
+        if len(rn) != 1 or src.literal({k.arg: k.value for k in rn[0].keywords}["columns"]) != want:
+            raise core.AnchorMissing("gctf_read: rename(columns=...)")
+        return dict(columns=lists[1], phase=lists[1][-1], lo=sl[0], hi=sl[1])
+    gs = src.anchor("gctf_read:name-list selection + positional scaling slice", gctf_select) or DOC["gctf"]
+
+    def reset_key():
+        fn = src.find(M, "Mdoc.sort_by_tilt")
+        for n in ast.walk(fn):
+            if isinstance(n, ast.If) and ast.unparse(n.test) == "reset_z_value":
+                for st in n.body:
+                    if isinstance(st, ast.Assign) and ast.unparse(st.targets[0].value) == "self.imgs" and core.norm_expr(st.value) == "range(self.imgs.shape[0])":
+                        k = st.targets[0].slice
+                        if isinstance(k, ast.Constant):
+                            return [k.value, False]
+                        if ast.unparse(k) == "self.section_id":
+                            return [DOC["reset"][0], True]
+        raise core.AnchorMissing("if reset_z_value: self.imgs[<key>] = range(self.imgs.shape[0])")
+    rsk = src.anchor("Mdoc.sort_by_tilt:key written by reset_z_value", reset_key) or DOC["reset"]
+
+    def indices_shift():
+        fn = src.find(I, "indices_load")
+        names = [a.arg for a in fn.args.args]
+        d = bool(ast.literal_eval(fn.args.defaults[names.index("numbered_from_1") - (len(names) - len(fn.args.defaults))]))
+        for st in fn.body:
+            if isinstance(st, ast.If) and ast.unparse(st.test) == "numbered_from_1":
+                if len(st.body) == 1 and isinstance(st.body[0], ast.Assign) and re.fullmatch(r"(\w+)=\1-1", core.norm_expr(st.body[0])):
+                    return [True, d]
+                if len(st.body) == 1 and isinstance(st.body[0], ast.AugAssign):
+                    return [False, d]       # in-place: the caller's array is edited
+        raise core.AnchorMissing("if numbered_from_1: x = x - 1")
+    ish = src.anchor("indices_load:shift builds a new array", indices_shift) or DOC["indices"]
+
+    def sig_defaults():
+        def dflt(rel, q, name):
+            fn = src.find(rel, q)
+            names = [a.arg for a in fn.args.args]
+            return ast.literal_eval(fn.args.defaults[names.index(name) - (len(names) - len(fn.args.defaults))])
+        sg, bt = "create_wedge_list_sg", "create_wedge_list_sg_batch"
+        return dict(write_removed=bool(dflt(M, "Mdoc.write", "removed")), write_overwrite=bool(dflt(M, "Mdoc.write", "overwrite")),
+                    remove_kept_only=bool(dflt(M, "Mdoc.remove_images", "kept_only")), sort_reset=bool(dflt(M, "Mdoc.sort_by_tilt", "reset_z_value")),
+                    mdoc_section_id=dflt(M, "Mdoc.__init__", "section_id"), script_from1=bool(dflt(M, "remove_images", "numbered_from_1")),
+                    defocus_file_type=dflt(I, "defocus_load", "file_type"),
+                    sg_z_shift=repr(float(dflt(W, sg, "z_shift"))), sg_ctf_type=dflt(W, sg, "ctf_file_type"), sg_voltage=repr(float(dflt(W, sg, "voltage"))),
+                    sg_amp=repr(float(dflt(W, sg, "amp_contrast"))), sg_cs=repr(float(dflt(W, sg, "cs"))),
+                    batch_z_shift=repr(float(dflt(W, bt, "z_shift"))), batch_ctf_type=dflt(W, bt, "ctf_file_type"), batch_voltage=repr(float(dflt(W, bt, "voltage"))),
+                    batch_amp=repr(float(dflt(W, bt, "amp_contrast"))), batch_cs=repr(float(dflt(W, bt, "cs"))), sg_drop_nan=bool(dflt(W, sg, "drop_nan_columns")))
+    sd = src.anchor("signature defaults (write, remove_images, sort_by_tilt, defocus_load, create_wedge_list_sg(_batch), mdoc.remove_images)", sig_defaults) or DOC["defaults"]
+
+    def batch_lookups():
+        fn = src.find(W, "create_wedge_list_sg_batch")
+        t = _alpha(fn).replace(" ", "")
+        d = re.search(r"=(\w+)\.loc\[\1\['tomo_id'\]==(\w+),\['x','y','z'\]\]\.values\[0\]", t)
+        z = re.search(r"=(\w+)\.loc\[\1\['tomo_id'\]==(\w+),'z_shift'\]\.values\[0\]", t)
+        if not d or not z or d.group(2) != z.group(2) or not re.search(r"for" + d.group(2) + r"in(\w+):", t.replace("\n", "")):
+            raise core.AnchorMissing("per-tomogram look-ups table.loc[table['tomo_id'] == t, ...].values[0] rewritten")
+        return True
+    blk = src.anchor("create_wedge_list_sg_batch:dimensions and z-shift are looked up by tomo_id", batch_lookups)
+    if blk is None:
+        blk = True
+
+    def digests():
+        return [[rel.split("/")[-1] + ":" + q, _digest(src.find(rel, q))] for rel, q in DIGEST_FUNCS]
+    dg = src.anchor("normalised whole-body dumps (functions with branches the run never executes / short helpers)", digests) or \
+        [[rel.split("/")[-1] + ":" + q, "?"] for rel, q in DIGEST_FUNCS]
 
     def ext_table(tb):
         return "[" + ", ".join("(" + _chars(e) + ", " + core.lean_str(h) + ")" for e, h in tb) + "]"
@@ -377,8 +652,11 @@ def translate(src):
         return "[" + ", ".join("(" + core.lean_str(a) + ", " + core.lean_str(b) + ")" for a, b in tb) + "]"
 
     def rat(x):
-        return core.lean_rat(x) if x is not None else "mkRat 0 1"
-    kvsep = kv[1] if kv else "?"
+        return core.lean_rat(x)
+
+    def b(x):
+        return "true" if x else "false"
+    kvsep = kv[1]
     return f"""-- GENERATED by harness/props/c17.py from {M}, {I}, {W}; do not edit
 namespace CryoCat.Gen.C17
 def anchorsOk : Bool := {"true" if src.ok else "false"}
@@ -422,6 +700,27 @@ def defocusTypeChain : List String := {core.lean_str_list(dd.get("types", []))}
 def defocusDispatch : List (String × String) := {str_pairs(dd.get("table", []))}
 def defocusLowers : Bool := {"true" if dd.get("lowers") else "false"}
 def defocusArrayColumns : List String := {core.lean_str_list(dd.get("array_columns", []))}
+def oneValueDtype : String := {core.lean_str(ovd)}
+def gctfColumns : List String := {core.lean_str_list(gs["columns"])}
+def gctfPhaseColumn : String := {core.lean_str(gs["phase"])}
+def gctfScaleLo : Nat := {gs["lo"]}
+def gctfScaleHi : Nat := {gs["hi"]}
+def resetKey : List Char := {_chars(rsk[0])}
+def resetUsesSectionId : Bool := {b(rsk[1])}
+def indicesShiftPure : Bool := {b(ish[0])}
+def indicesFrom1Default : Bool := {b(ish[1])}
+def writeRemovedDefault : Bool := {b(sd["write_removed"])}
+def writeOverwriteDefault : Bool := {b(sd["write_overwrite"])}
+def removeKeptOnlyDefault : Bool := {b(sd["remove_kept_only"])}
+def sortResetDefault : Bool := {b(sd["sort_reset"])}
+def mdocSectionIdDefault : String := {core.lean_str(sd["mdoc_section_id"])}
+def scriptFrom1Default : Bool := {b(sd["script_from1"])}
+def defocusFileTypeDefault : String := {core.lean_str(sd["defocus_file_type"])}
+def sgDefaults : String × List Rat := ({core.lean_str(sd["sg_ctf_type"])}, [{rat(sd["sg_z_shift"])}, {rat(sd["sg_voltage"])}, {rat(sd["sg_amp"])}, {rat(sd["sg_cs"])}])
+def batchDefaults : String × List Rat := ({core.lean_str(sd["batch_ctf_type"])}, [{rat(sd["batch_z_shift"])}, {rat(sd["batch_voltage"])}, {rat(sd["batch_amp"])}, {rat(sd["batch_cs"])}])
+def sgDropsNanColumnsByDefault : Bool := {b(sd["sg_drop_nan"])}
+def batchLooksUpByTomoId : Bool := {b(blk)}
+def bodyDigests : List (String × String) := {str_pairs(dg)}
 end CryoCat.Gen.C17
 """
 
@@ -502,7 +801,18 @@ def _kv_line(rng, k, v):
     return rng.choice(["", " ", "\t"]) + f"{k} = {v}" + rng.choice(["", "   "])
 
 
-def _tilt_texts(rng, n):
+def _tilt_fraction(t):
+    body = t.lstrip("+-")
+    sign = -1 if t.startswith("-") else 1
+    mant, _, ex = body.lower().partition("e")
+    if mant.endswith("."):
+        mant += "0"
+    if mant.startswith("."):
+        mant = "0" + mant
+    return sign * Fraction(mant) * (Fraction(10) ** int(ex or "0"))
+
+
+def _tilt_texts(rng, n, odd=True):
     seen, out = set(), []
     while len(out) < n:
         k = rng.random()
@@ -510,13 +820,15 @@ def _tilt_texts(rng, n):
             t = f"{rng.uniform(-70, 70):.{rng.randint(1, 4)}f}"
         elif k < 0.8:
             t = str(rng.randint(-70, 70))
-        elif k < 0.9:
+        elif k < 0.88:
             t = rng.choice(["-0", "0", "0.0", "3.", "-3.", ".5", "-.5", "007", "-060.00", "12.50"])
+        elif k < 0.92 and odd:
+            # spellings the strict model does not know but Python's float() reads (audit item 5b): explicit '+', exponent forms,
+            # values below 1e-4 (printed back in exponent form by write)
+            t = rng.choice(["+5", "+12.5", "1e-3", "2.5E+1", "-1e-05", "0.00001", "-0.00002", "+.5", "5e0", "1.25e1", "-3E-2", "0.000012"])
         else:
             t = f"{rng.uniform(-3, 3):.2f}"
-        fr = Fraction(t if t[-1] != "." else t + "0") if t not in (".5", "-.5") else Fraction(t.replace(".5", "0.5"))
-        if fr != 0 and abs(fr) < Fraction(1, 10000):
-            continue
+        fr = _tilt_fraction(t)
         if fr in seen:
             continue
         seen.add(fr)
@@ -545,7 +857,7 @@ def _mdoc_text(rng, n_img, allow_exp=True):
     if rng.random() < 0.1 and "ExposureDose" in keys:
         keys.remove("ExposureDose")
     rng.shuffle(keys)
-    tilts = _tilt_texts(rng, n_img)
+    tilts = _tilt_texts(rng, n_img, odd=(rng.random() < 0.12))
     zs = list(range(n_img))
     if rng.random() < 0.2:
         zs = rng.sample(range(0, 3 * n_img + 3), n_img)
@@ -630,14 +942,71 @@ def gen_mdoc(rng, tier):
     n_img = rng.randint(20, 80) if big else rng.randint(1, 8 if tier == "search" else 14)
     text = _mdoc_text(rng, n_img, allow_exp=(rng.random() < 0.08))
     case = dict(kind="mdoc", text=text, steps=_steps(rng, n_img), write_removed=(rng.random() < 0.3))
-    if "[FrameSet" in text:     # reset_z_value writes a column literally named "ZValue": only meaningful for ZValue sections
-        for st in case["steps"]:
-            if st["k"] == "sort":
-                st["reset"] = False
+    # G1: in a share of the calls the keyword is OMITTED so that the library's default is what runs (the expectation then uses the
+    # DOCUMENTED default: kept_only=True, reset_z_value=False, removed=False)
+    for st in case["steps"]:
+        if st["k"] == "sort" and not st["reset"] and rng.random() < 0.5:
+            st["omit_kw"] = True
+        if st["k"] == "remove" and st["kept_only"] and rng.random() < 0.4:
+            st["omit_kw"] = True
+    if not case["write_removed"] and rng.random() < 0.4:
+        case["write_removed"] = None                # write(path, overwrite=True) without `removed`
+    if "[FrameSet" in text and rng.random() < 0.5 and n_img >= 2:
+        # audit item 4: FrameSet + sort_by_tilt(reset_z_value=True) (class of C17-K3)
+        case["steps"] = case["steps"][:2] + [dict(k="sort", reset=True)] + case["steps"][2:]
+    if rng.random() < 0.1:
+        return gen_mdoc_odd(rng, text, n_img)
     if rng.random() < 0.06:
         case["text"], case["malformed"] = _malform(rng, text)
         case["steps"] = []
     return case
+
+
+ODD_KINDS = ["diff-keys", "diff-keys-first", "dup-header", "dup-body", "dup-body-first", "bracket-in-section", "bracket-no-eq", "z-form", "tilt-outside", "tilt-forms"]
+
+
+def gen_mdoc_odd(rng, text, n_img):
+    """audit item 5: texts of the shapes where the strict model answers `none` although the code does not raise. dup-header and
+    tilt-forms are FOLLOWED by the extended model (parseMdocX); the others are named classes outside the quantifier (whyNone): the
+    judge skips them explicitly and counts them"""
+    lines = text.split("\n")
+    sec = [i for i, l in enumerate(lines) if l.startswith("[ZValue") or l.startswith("[FrameSet")]
+    kind = rng.choice(ODD_KINDS)
+    body = [i for i, l in enumerate(lines) if l.strip() and not l.strip().startswith("[") and sec and i > sec[0]]
+    first_body = [i for i in body if len(sec) < 2 or i < sec[1]]
+    later_body = [i for i in body if len(sec) >= 2 and i > sec[1]]
+    nt = lambda idx: [i for i in idx if not lines[i].strip().startswith("TiltAngle")]
+    if kind == "diff-keys" and nt(later_body):
+        del lines[rng.choice(nt(later_body))]
+    elif kind == "diff-keys-first" and nt(first_body) and len(sec) >= 2:
+        del lines[rng.choice(nt(first_body))]
+    elif kind == "dup-header":
+        hk = rng.choice(["PixelSpacing", "Voltage", "Q"])
+        lines = [f"{hk} = 1.5", "Other = a b"] + lines[:sec[0]] + [f"{hk} = {rng.choice(['7', 'x y', '2.25'])}"] + lines[sec[0]:]
+    elif kind == "dup-body" and later_body:
+        i = rng.choice(later_body); lines.insert(i + 1, lines[i].split("=")[0] + "= 77")
+    elif kind == "dup-body-first" and first_body:
+        i = rng.choice(first_body); lines.insert(i + 1, lines[i].split("=")[0] + "= 77")
+    elif kind == "bracket-in-section" and body:
+        lines.insert(rng.choice(body), rng.choice(["[T = 5]", "[Note = x]", "[ZValue = 9]x"][:2]))
+    elif kind == "bracket-no-eq" and body:
+        lines.insert(rng.choice(body), "[T]")
+    elif kind == "z-form":
+        i = rng.choice(sec); lines[i] = re.sub(r"=\s*0*(\d+)", lambda m: "= " + rng.choice(["+", "-" if m.group(1) == "0" else "+", ""]) + m.group(1) + rng.choice(["", "_0"]), lines[i], 1)
+    elif kind == "tilt-outside":
+        t = [i for i in body if lines[i].strip().startswith("TiltAngle")]
+        lines[rng.choice(t)] = "TiltAngle = " + rng.choice(["nan", "inf", "-inf", "1_0", "NaN", "1e400", "Infinity"])
+    else:
+        t = [i for i in body if lines[i].strip().startswith("TiltAngle")]
+        used = {l.split("=")[1].strip() for l in lines if l.strip().startswith("TiltAngle")}
+        for i in rng.sample(t, min(len(t), rng.randint(1, 3))):
+            c = rng.choice([x for x in ["+5", "+12.5", "1e-3", "2.5E+1", "-1e-05", "0.00001", "-0.00002", "+.5", "5e0", "-3E-2", "0.000012", "+81", "7.5e-1"]
+                            if x not in used])
+            used.add(c)
+            lines[i] = "TiltAngle = " + c
+    steps = _steps(rng, n_img) if kind in ("dup-header", "tilt-forms") else []
+    steps = [st for st in steps if st["k"] != "remove" or all(-n_img <= i < n_img for i in st["idxs"])]
+    return dict(kind="mdoc", text="\n".join(lines), steps=steps, write_removed=False, odd=kind)
 
 
 # ------------------------------------------------------------------ mdoc: implementation adapter
@@ -666,11 +1035,26 @@ def _canon_mdoc(m):
                 columns_all=cols)
 
 
+def _exc(e):
+    """an exception as an observation; `in_cryocat` says whether any frame of its traceback lies inside /cryocat/ (G4: a failure of
+    the harness or of a third-party library outside any cryoCAT call is not a finding about cryoCAT)"""
+    import traceback
+    tb = traceback.extract_tb(e.__traceback__)
+    return {"raise": f"{type(e).__name__}: {str(e)[:200]}", "in_cryocat": any("/cryocat/" in fr.filename for fr in tb)}
+
+
 def _try(f):
     try:
         return f()
     except Exception as e:
-        return {"raise": f"{type(e).__name__}: {str(e)[:200]}"}
+        return _exc(e)
+
+
+def _raised(r, clause, detail, kind="spec", **kw):
+    """finding for an observation {"raise": …}: `kind` when cryoCAT code was on the stack, else corr/harness-or-library-raised"""
+    if r.get("in_cryocat", True):
+        return dict(kind=kind, clause=clause, detail=detail, **kw)
+    return dict(kind="corr", clause="harness-or-library-raised", detail=f"{clause}: {detail} (no frame of the traceback is inside /cryocat/)")
 
 
 def run_mdoc(case):
@@ -683,7 +1067,7 @@ def run_mdoc(case):
         try:
             m = mdoc.Mdoc(p)
         except Exception as e:
-            return {"parsed": {"raise": f"{type(e).__name__}: {str(e)[:200]}"}}
+            return {"parsed": _exc(e)}
         out["parsed"] = _canon_mdoc(m)
         # round trip of the freshly read object (all images written)
         p2 = os.path.join(td, "b.mdoc")
@@ -695,28 +1079,41 @@ def run_mdoc(case):
         for st in case.get("steps", []):
             try:
                 if st["k"] == "sort":
-                    m.sort_by_tilt(reset_z_value=st.get("reset", False))
+                    if st.get("omit_kw"):
+                        m.sort_by_tilt()
+                    else:
+                        m.sort_by_tilt(reset_z_value=st.get("reset", False))
+                elif st.get("omit_kw"):
+                    m.remove_images(list(st["idxs"]))
                 else:
                     m.remove_images(list(st["idxs"]), kept_only=st.get("kept_only", True))
             except Exception as e:
-                failed = f"{type(e).__name__}: {str(e)[:200]}"
+                failed = _exc(e)
                 break
         if failed:
-            out["after"] = {"raise": failed}
+            out["after"] = failed
         else:
             out["after"] = _canon_mdoc(m)
             kept = m.kept_images()
             out["kept_labels"] = [int(i) for i in kept.index.tolist()]
             out["removed_labels"] = [int(i) for i in m.removed_images().index.tolist()]
             p3 = os.path.join(td, "c.mdoc")
-            m.write(p3, overwrite=True, removed=case.get("write_removed", False))
+            if case.get("write_removed", False) is None:
+                m.write(p3, overwrite=True)
+            else:
+                m.write(p3, overwrite=True, removed=case.get("write_removed", False))
             out["written"] = open(p3, newline="").read()
             out["reread"] = _try(lambda: _canon_mdoc(mdoc.Mdoc(p3)))
         cols = out["parsed"]["cols"]
+        dts = out["dtypes"] = {}
         if "ExposureDose" in cols and "PriorRecordDose" in cols:
-            out["dose"] = _try(lambda: [_canon_cell(x) for x in ioutils.total_dose_load(p).tolist()])
-        out["tilts"] = _try(lambda: [repr(float(x)) for x in ioutils.tlt_load(p, False)])
-        out["tilts_sorted"] = _try(lambda: [repr(float(x)) for x in ioutils.tlt_load(p)])
+            def dose():
+                a = ioutils.total_dose_load(p)
+                dts["dose"] = str(a.dtype)
+                return [_canon_cell(x) for x in a.tolist()]
+            out["dose"] = _try(dose)
+        out["tilts"] = _try(lambda: _floats(ioutils.tlt_load(p, False), dts, "tilts"))
+        out["tilts_sorted"] = _try(lambda: _floats(ioutils.tlt_load(p), dts, "tilts_sorted"))
     return out
 
 
@@ -830,16 +1227,25 @@ def judge_mdoc(case, obs, resp):
     mod = resp
     if "error" in mod:
         return [dict(kind="corr", clause="driver-error", detail=str(mod))]
+    if mod["parsed"] is None:
+        # the model reads nothing: either the code must raise (why = raises), or the text belongs to a NAMED class outside the
+        # quantifier (sections with different key sets, '[' line / repeated key inside a section, int()-only section values, nan / inf
+        # tilts): then nothing is compared, explicitly - stats() counts the case under mdoc_outside_class
+        why = mod.get("why") or "raises"
+        if why == "raises":
+            if "raise" not in obs["parsed"]:
+                out.append(dict(kind="corr", clause="malformed-accepted", detail=f"{case.get('malformed') or case.get('odd')}: reader accepted, the model says the code raises"))
+            elif not obs["parsed"].get("in_cryocat", True):
+                out.append(_raised(obs["parsed"], "reader-raises", obs["parsed"]["raise"]))
+        return out
     if case.get("malformed"):
-        if "raise" not in obs["parsed"]:
-            if mod["parsed"] is None:
-                out.append(dict(kind="corr", clause="malformed-accepted", detail=f"{case['malformed']}: reader accepted, model refuses"))
-        elif mod["parsed"] is not None:
+        if "raise" in obs["parsed"]:
             out.append(dict(kind="corr", clause="malformed-model-accepts", detail=f"{case['malformed']}: reader raised {obs['parsed']['raise']}, model accepts"))
         return out
     if "raise" in obs["parsed"]:
-        return [dict(kind="spec", clause="reader-raises", detail=obs["parsed"]["raise"])]
+        return [_raised(obs["parsed"], "reader-raises", obs["parsed"]["raise"])]
     P = obs["parsed"]
+    strict = bool(mod.get("strict", True))
     # (1) reading: implementation vs model
     d = _mdoc_eq(P, mod["parsed"])
     if d:
@@ -848,7 +1254,7 @@ def judge_mdoc(case, obs, resp):
     d = _same_object(P, obs["fresh_reread"])
     if d:
         out.append(dict(kind="spec", clause="mdoc-roundtrip", detail="after write + re-read: " + d, k1=_k1_only(P, obs["fresh_reread"])))
-        if mod.get("wf") or mod.get("text_ok"):
+        if strict and (mod.get("wf") or mod.get("text_ok")):
             out.append(dict(kind="corr", clause="theorem-hypotheses-hold-but-roundtrip-fails",
                             detail=f"the text is in the class textOk={mod.get('text_ok')} / the model object passes wfb={mod.get('wf')} (hypotheses of "
                                    "read_write_read_text / read_write_read) yet the real round trip differs: " + d))
@@ -857,7 +1263,7 @@ def judge_mdoc(case, obs, resp):
     d = _mdoc_eq(obs["fresh_reread"], mod["fresh_reread"]) if "raise" not in obs["fresh_reread"] else ("re-read raised " + obs["fresh_reread"]["raise"])
     if d:
         out.append(dict(kind="corr", clause="reread-vs-model", detail=d))
-    if mod["parsed"] is not None and bool(mod.get("text_ok")) != bool(mod.get("wf")):
+    if strict and mod["parsed"] is not None and bool(mod.get("text_ok")) != bool(mod.get("wf")):
         out.append(dict(kind="corr", clause="text_class_exact-contradicted", detail=f"the model reads the text, textOk={mod.get('text_ok')} but wfb={mod.get('wf')}"))
     # (3) operations
     A = obs["after"]
@@ -873,6 +1279,14 @@ def judge_mdoc(case, obs, resp):
                 out.append(dict(kind="corr", clause="ops-vs-model", detail=d))
         resets = any(s["k"] == "sort" and s.get("reset") for s in case["steps"])
         # SPEC: only the order or the removed flag changes
+        # class of C17-K3: reset_z_value=True on an object whose section column is not "ZValue": the code adds a column ZValue = k to the
+        # table (one more entry in every image, written as `ZValue = k` inside every section) - reported ONCE, under its own clause, and the
+        # column is then set aside so that the remaining clauses are still judged
+        if resets and P["sid"] != "ZValue" and A["cols"] == P["cols"] + ["ZValue"] and all(len(r["cells"]) == len(P["cols"]) + 1 for r in A["rows"]):
+            out.append(dict(kind="spec", clause="sort-reset-adds-entry", k3=True,
+                            detail=f"sort_by_tilt(reset_z_value=True) on a {P['sid']} mdoc: sorting must change only the order, but every image gained an entry "
+                                   f"'ZValue = k' (columns {P['cols']} became {A['cols']}) while the {P['sid']} values were not renumbered"))
+            A = dict(A, cols=A["cols"][:-1], rows=[dict(r, cells=r["cells"][:-1]) for r in A["rows"]])
         byl = {r["label"]: r for r in P["rows"]}
         if sorted(r["label"] for r in A["rows"]) != sorted(byl):
             out.append(dict(kind="spec", clause="ops-change-row-set", detail="row labels changed"))
@@ -892,7 +1306,7 @@ def judge_mdoc(case, obs, resp):
         if order is not None and [r["label"] for r in A["rows"]] != order:
             out.append(dict(kind="spec", clause="sort-order", detail=f"row order {[r['label'] for r in A['rows']]}, ascending tilt demands {order}"))
         # SPEC: the written file omits exactly the removed images
-        wr = case.get("write_removed", False)
+        wr = bool(case.get("write_removed", False))        # None = keyword omitted = the documented default False
         want = [r for r in A["rows"] if wr or r["removed"] == ["b", False]]
         nsec = sum(1 for l in obs["written"].split("\n") if l.startswith("[" + A["sid"]))
         if nsec != len(want):
@@ -900,9 +1314,9 @@ def judge_mdoc(case, obs, resp):
         elif want:
             R = obs["reread"]
             if "raise" in R:
-                out.append(dict(kind="spec", clause="written-omits-removed", detail="written file cannot be re-read: " + R["raise"]))
+                out.append(_raised(R, "written-omits-removed", "written file cannot be re-read: " + R["raise"]))
             else:
-                W = dict(A, rows=want)
+                W = dict(obs["after"], rows=[r for r in obs["after"]["rows"] if wr or r["removed"] == ["b", False]])
                 d = _same_object(W, R, ignore_flags=True)
                 if d and not _k1_only(W, R):   # K1-only differences are reported once, by the round-trip clause
                     out.append(dict(kind="spec", clause="written-omits-removed", detail="re-read of the written file: " + d))
@@ -911,10 +1325,13 @@ def judge_mdoc(case, obs, resp):
     # (4) loaders on the mdoc
     ti = P["cols"].index("TiltAngle")
     tl = [Fraction(r["cells"][ti][1]) for r in P["rows"]]
+    for key, dt in obs.get("dtypes", {}).items():
+        if not _numeric_dtype(dt):
+            out.append(dict(kind="spec", clause="loader-dtype", detail=f"{key} of the mdoc comes back with dtype {dt}, not a numeric one"))
     for key, want in (("tilts", tl), ("tilts_sorted", sorted(tl))):
         got = obs[key]
         if isinstance(got, dict):
-            out.append(dict(kind="spec", clause="tlt_load-mdoc-raises", detail=got["raise"]))
+            out.append(_raised(got, "tlt_load-mdoc-raises", got["raise"]))
         elif [Fraction(x) for x in got] != want:
             out.append(dict(kind="spec", clause="tlt_load-mdoc", detail=f"{key}: {got[:6]}... expected {[float(x) for x in want[:6]]}"))
         elif mod[key] is not None and [Fraction(a, b) for a, b in mod[key]] != [_dec_of_float(x) for x in got]:
@@ -926,14 +1343,16 @@ def judge_mdoc(case, obs, resp):
         got = obs["dose"]
         if isinstance(got, dict):
             if all(a is not None and b is not None for a, b in want):
-                out.append(dict(kind="spec", clause="mdoc-dose-raises", detail=got["raise"]))
+                out.append(_raised(got, "mdoc-dose-raises", got["raise"]))
             elif mod["dose"] is not None:
                 out.append(dict(kind="corr", clause="mdoc-dose", detail="implementation raises, model does not"))
         else:
             for n, (g, (a, b)) in enumerate(zip(got, want)):
+                if g[0] not in ("i", "f"):
+                    out.append(dict(kind="spec", clause="mdoc-dose", detail=f"image {n} in tilt order: the dose comes back as {g}, not a number")); break
                 if a is None or b is None or abs(Fraction(g[1]) - (a + b)) > Fraction(1, 10 ** 9) * max(1, abs(a + b)):
                     out.append(dict(kind="spec", clause="mdoc-dose", detail=f"image {n} in tilt order: dose {g[1]}, prior + exposure = {b} + {a}")); break
-            if mod["dose"] is None or len(mod["dose"]) != len(got) or any(
+            if mod["dose"] is None or len(mod["dose"]) != len(got) or any(g[0] not in ("i", "f") for g in got) or any(
                     abs(Fraction(g[1]) - Fraction(a, b)) > Fraction(1, 10 ** 9) * max(1, abs(Fraction(a, b))) for g, (a, b) in zip(got, mod["dose"])):
                 out.append(dict(kind="corr", clause="mdoc-dose-vs-model", detail=f"{got[:4]} vs {mod['dose'] and mod['dose'][:4]}"))
     return out
@@ -962,11 +1381,13 @@ def _expected_flags(P, steps):
         if st["k"] == "sort":
             order = sorted(order, key=lambda l: tilt[l])
         else:
-            pool = [l for l in order if l not in removed] if st.get("kept_only", True) else list(order)
-            for i in st["idxs"]:
+            kept_only = True if st.get("omit_kw") or "from1" in st else st.get("kept_only", True)      # documented default
+            idxs = [i - 1 for i in st["idxs"]] if st.get("from1") else st["idxs"]
+            pool = [l for l in order if l not in removed] if kept_only else list(order)
+            for i in idxs:
                 if not (-len(pool) <= i < len(pool)):
                     return None, None
-            for i in st["idxs"]:
+            for i in idxs:
                 removed.add(pool[i])
     return removed, order
 
@@ -1030,6 +1451,11 @@ def gen_load_in(rng, sub, n):
         content = rng.choice(["gctf", "ctffind"])
         ft = rng.choice(FILE_TYPES[content]) if rng.random() < 0.85 else rng.choice(["relion", "ctffind", "gctf2", ""])
         case.update(input="file", content=content, file_type=ft, phase=(rng.random() < 0.5))
+        if content == "gctf":
+            case["col_order"] = rng.choice(GCTF_ORDERS)
+            case["perm"] = rng.sample(range(6), 6)
+            if ft.lower() == "gctf" and rng.random() < 0.4:
+                case["file_type"] = None        # G1: defocus_load(path) - the default file_type="gctf" runs
     return case
 
 
@@ -1045,7 +1471,7 @@ def gen_load(rng, tier):
             vals = [f"{rng.uniform(-70, 200):.{rng.randint(0, 3)}f}" for _ in range(n)]
         return dict(kind="load", sub=sub, vals=vals, indent=rng.choice(["", "  ", "\t"]), ext=rng.choice([".tlt", ".txt", ".rawtlt"]))
     return dict(kind="load", sub=sub, rows=_ctf_rows(rng, n), phase=(rng.random() < 0.5), comments=rng.randint(0, 6),
-                extra_cols=rng.randint(0, 3))
+                extra_cols=rng.randint(0, 3), col_order=rng.choice(GCTF_ORDERS), perm=rng.sample(range(8), 8))
 
 
 def _mdoc_for_wedge(rng, tilts, doses):
@@ -1083,6 +1509,36 @@ def gen_wedge(rng, tier):
                             cs=rng.choice(["2.7", "2.0"])),
                 tomo_list=rng.choice(["array", "file", "list"]), dims_mode=rng.choice(["array", "file", "single"]),
                 z_mode=rng.choice(["array", "file", "scalar"]), tlt_from_mdoc=(dose == "mdoc" and rng.random() < 0.5))
+    # audit item 6: tilt FILES in acquisition (unsorted) order - tlt_load re-sorts them, ctf / dose lists stay in file order, the
+    # i-th ascending tilt is paired with the i-th defocus / exposure of the files
+    if rng.random() < 0.35:
+        case["tilts_unsorted"] = True
+        for tm in tomos:
+            if "mdoc" not in tm:
+                rng.shuffle(tm["tilts"])
+    # the dimension / z-shift tables in another row order than the tomogram list, possibly with rows of further tomograms
+    if rng.random() < 0.5:
+        case["table_perm"] = rng.sample(range(nt), nt)
+        if rng.random() < 0.4:
+            case["table_extra"] = [dict(id=rng.choice([i for i in range(1, 999) if i not in ids]), dims=[str(rng.randint(200, 4096)) for _ in range(3)],
+                                        z=f"{rng.uniform(-200, 200):.1f}")]
+    if ctf == "gctf":
+        case["col_order"] = rng.choice(GCTF_ORDERS)
+        case["perm"] = rng.sample(range(6), 6)
+    # G1: omit keywords so that the documented defaults run (voltage 300, amplitude contrast 0.07, cs 2.7, z_shift 0, ctf_file_type gctf)
+    omit = []
+    for k, d in (("voltage", "300.0"), ("amp", "0.07"), ("cs", "2.7")):
+        if rng.random() < 0.3:
+            case["consts"][k] = d
+            omit.append(k)
+    if ctf == "gctf" and rng.random() < 0.4:
+        omit.append("ctf_file_type")
+    if rng.random() < 0.12:
+        omit.append("z_shift")
+        case["z_mode"] = "scalar"
+        for tm in tomos:
+            tm["z"] = "0"
+    case["omit"] = omit
     if case["dims_mode"] == "single":
         for tm in tomos:
             tm["dims"] = tomos[0]["dims"]
@@ -1091,7 +1547,7 @@ def gen_wedge(rng, tier):
             tm["z"] = tomos[0]["z"]
     if case["z_mode"] == "array" and rng.random() < 0.12:
         case["z_int_array"] = True      # integer-valued ndarray of z-shifts (class of C17-K2)
-        for tm in tomos:
+        for tm in tomos + (case.get("table_extra") or []):
             tm["z"] = str(rng.randint(-50, 50))
     if nt >= 2 and rng.random() < 0.1:
         tomos.append(tomos[0])          # a tomogram listed twice, interleaved: one block per listing, sg->em merges them
@@ -1109,12 +1565,56 @@ def gen_wedge(rng, tier):
 
 
 # ------------------------------------------------------------------ loaders and wedge lists: implementation adapter
-def _gctf_text(rows, phase, extra):
-    cols = ["rlnMicrographName"] + [f"rlnExtra{i}" for i in range(extra)] + ["rlnDefocusU", "rlnDefocusV", "rlnDefocusAngle"] + (["rlnPhaseShift"] if phase else []) + ["rlnVoltage"]
-    out = ["", "data_", "", "loop_"] + [f"_{c} #{i+1}" for i, c in enumerate(cols)]
+GCTF_ORDERS = ["canonical", "canonical", "alphabetical", "angle-first", "phase-before-v", "v-before-u", "reversed", "shuffled"]
+
+
+def _gctf_columns(phase, extra, order="canonical", perm=None):
+    """column names of a gctf STAR loop in FILE order. gctf itself writes U, V, angle, …, phase shift; tools that re-save STAR files
+    write other orders (alphabetical: angle < phase shift < U < V) - gctf_read selects by NAME, so every order must read the same"""
+    core_cols = ["rlnDefocusU", "rlnDefocusV", "rlnDefocusAngle"] + (["rlnPhaseShift"] if phase else [])
+    if order == "alphabetical":
+        core_cols = sorted(core_cols)
+    elif order == "angle-first":
+        core_cols = ["rlnDefocusAngle"] + [c for c in core_cols if c != "rlnDefocusAngle"]
+    elif order == "phase-before-v" and phase:
+        core_cols = ["rlnDefocusU", "rlnPhaseShift", "rlnDefocusV", "rlnDefocusAngle"]
+    elif order == "v-before-u":
+        core_cols = ["rlnDefocusV", "rlnDefocusU"] + core_cols[2:]
+    elif order == "reversed":
+        core_cols = core_cols[::-1]
+    cols = ["rlnMicrographName"] + [f"rlnExtra{i}" for i in range(extra)] + core_cols + ["rlnVoltage"]
+    if order == "shuffled" and perm:
+        base = cols
+        cols = [base[i] for i in perm if i < len(base)] + [c for j, c in enumerate(base) if j not in perm]
+    return cols
+
+
+def _gctf_cells(rows, phase, extra):
+    """per row: column name -> cell text"""
+    out = []
     for i, r in enumerate(rows):
-        out.append(" ".join([f"split.mrc.{i+1:02d}"] + ["%d.5" % j for j in range(extra)] + [r[0], r[1], r[2]] + ([r[3]] if phase else []) + ["300.000000"]))
+        d = {"rlnMicrographName": f"split.mrc.{i+1:02d}", "rlnDefocusU": r[0], "rlnDefocusV": r[1], "rlnDefocusAngle": r[2], "rlnVoltage": "300.000000"}
+        if phase:
+            d["rlnPhaseShift"] = r[3]
+        for j in range(extra):
+            d[f"rlnExtra{j}"] = "%d.5" % j
+        out.append(d)
+    return out
+
+
+def _gctf_text(rows, phase, extra, order="canonical", perm=None):
+    cols = _gctf_columns(phase, extra, order, perm)
+    out = ["", "data_", "", "loop_"] + [f"_{c} #{i+1}" for i, c in enumerate(cols)]
+    for d in _gctf_cells(rows, phase, extra):
+        out.append(" ".join(d[c] for c in cols))
     return "\n".join(out) + "\n"
+
+
+def _gctf_request(rows, phase, extra, order, perm):
+    """code-level request: the numeric columns of the STAR table in FILE order + the rows by name for the specification-level reader"""
+    cols = [c for c in _gctf_columns(phase, extra, order, perm) if c != "rlnMicrographName"]
+    return dict(op="gctf_code", cols=cols, cells=[[_rat(d[c]) for c in cols] for d in _gctf_cells(rows, phase, extra)],
+                rows=[[_rat(r[0]), _rat(r[1]), _rat(r[2]), (_rat(r[3]) if phase else None)] for r in rows])
 
 
 def _ctffind_text(rows, comments):
@@ -1124,12 +1624,33 @@ def _ctffind_text(rows, comments):
     return "\n".join(out) + "\n"
 
 
-def _floats(a):
-    return [repr(float(x)) for x in a]
+def _num(x):
+    """one returned element WITHOUT coercion (G3): numbers as repr of their value, anything else (text, None, …) marked as such"""
+    import numpy as np
+    if isinstance(x, (bool, np.bool_)):
+        return "bool:" + str(bool(x))
+    if isinstance(x, (int, np.integer)):
+        return repr(int(x))
+    if isinstance(x, (float, np.floating)):
+        return repr(float(x))
+    return f"{type(x).__name__}:{x!r}"
+
+
+def _floats(a, rec=None, key=None):
+    import numpy as np
+    if rec is not None:
+        rec[key] = str(a.dtype) if isinstance(a, np.ndarray) else type(a).__name__
+    return [_num(x) for x in (a.tolist() if isinstance(a, np.ndarray) else a)]
+
+
+def _numeric_dtype(dt):
+    """G3: a numeric result must not come back with a text dtype. `object` arrays / columns (pandas builds them for mdoc columns) are
+    judged element by element: `_num` / `_canon_cell` keep the Python type of every element, a str element then fails the value clause"""
+    return str(dt).startswith(("float", "int", "uint", "object", "ndarray", "list"))
 
 
 def _df_rows(df):
-    return dict(columns=[str(c) for c in df.columns], rows=[[repr(float(x)) for x in r] for r in df.to_numpy(dtype=float).tolist()],
+    return dict(columns=[str(c) for c in df.columns], rows=[[_num(x) for x in r] for r in df.itertuples(index=False, name=None)],
                 dtypes=[str(t) for t in df.dtypes])
 
 
@@ -1149,17 +1670,23 @@ def run_load_in(case):
             else:
                 inp = os.path.join(td, "x" + case["ext"])
                 open(inp, "w").write("".join(v + "\n" for v in case["vals"]))
+            dts = out["dtypes"] = {}
+            before = inp.copy() if isinstance(inp, np.ndarray) else (list(inp) if isinstance(inp, list) else None)
             if case["sub"] == "tlt_in":
                 kw = {} if case["sort"] is None else dict(sort_angles=case["sort"])
-                out["out"] = _try(lambda: _floats(ioutils.tlt_load(inp, **kw)))
+                out["out"] = _try(lambda: _floats(ioutils.tlt_load(inp, **kw), dts, "out"))
             else:
-                out["out"] = _try(lambda: _floats(ioutils.total_dose_load(inp)))
+                out["out"] = _try(lambda: _floats(ioutils.total_dose_load(inp), dts, "out"))
+            if before is not None:
+                out["input_unchanged"] = bool(np.array_equal(np.asarray(before), np.asarray(inp)))
             return out
         want = _expected_defocus(case["rows"])
         if case["input"] == "frame":
             df = pd.DataFrame([[float(x) for x in r] for r in want], columns=DEF_COLS)
-            res = ioutils.defocus_load(df, "gctf")
+            before = df.copy()
+            res = ioutils.defocus_load(df) if case.get("omit_file_type") else ioutils.defocus_load(df, "gctf")
             out["same_object"] = res is df
+            out["input_unchanged"] = bool(before.equals(df))
             out["out"] = _df_rows(res)
         elif case["input"] == "array":
             arr = np.array([[float(x) for x in r][:case["width"]] + [0.0] * max(0, case["width"] - 5) for r in want])
@@ -1167,11 +1694,14 @@ def run_load_in(case):
         else:
             if case["content"] == "gctf":
                 p = os.path.join(td, "x_gctf.star")
-                open(p, "w").write(_gctf_text(case["rows"], case["phase"], 0))
+                open(p, "w").write(_gctf_text(case["rows"], case["phase"], 0, case.get("col_order", "canonical"), case.get("perm")))
             else:
                 p = os.path.join(td, "x_ctffind4.txt")
                 open(p, "w").write(_ctffind_text(case["rows"], 2))
-            out["out"] = _try(lambda: _df_rows(ioutils.defocus_load(p, case["file_type"])))
+            if case["file_type"] is None:
+                out["out"] = _try(lambda: _df_rows(ioutils.defocus_load(p)))
+            else:
+                out["out"] = _try(lambda: _df_rows(ioutils.defocus_load(p, case["file_type"])))
     return out
 
 
@@ -1185,20 +1715,21 @@ def run_load(case):
         if case["sub"] in ("tlt", "dose"):
             p = os.path.join(td, "x" + case["ext"])
             open(p, "w").write("".join(case["indent"] + v + "\n" for v in case["vals"]))
+            dts = out["dtypes"] = {}
             if case["sub"] == "tlt":
-                out["sorted"] = _floats(ioutils.tlt_load(p))
-                out["unsorted"] = _floats(ioutils.tlt_load(p, sort_angles=False))
+                out["sorted"] = _floats(ioutils.tlt_load(p), dts, "sorted")
+                out["unsorted"] = _floats(ioutils.tlt_load(p, sort_angles=False), dts, "unsorted")
                 arr = np.array([float(v) for v in case["vals"]])
-                out["array"] = _floats(ioutils.tlt_load(arr))
-                out["list"] = _floats(ioutils.tlt_load([float(v) for v in case["vals"]]))
+                out["array"] = _floats(ioutils.tlt_load(arr), dts, "array")
+                out["list"] = _floats(ioutils.tlt_load([float(v) for v in case["vals"]]), dts, "list")
             else:
-                out["file"] = _floats(ioutils.total_dose_load(p))
+                out["file"] = _floats(ioutils.total_dose_load(p), dts, "file")
                 arr = np.array([float(v) for v in case["vals"]])
-                out["array"] = _floats(ioutils.total_dose_load(arr))
+                out["array"] = _floats(ioutils.total_dose_load(arr), dts, "array")
         else:
             if case["sub"] == "gctf":
                 p = os.path.join(td, "x_gctf.star")
-                open(p, "w").write(_gctf_text(case["rows"], case["phase"], case["extra_cols"]))
+                open(p, "w").write(_gctf_text(case["rows"], case["phase"], case["extra_cols"], case.get("col_order", "canonical"), case.get("perm")))
                 out["df"] = _df_rows(ioutils.gctf_read(p))
                 out["df_load"] = _df_rows(ioutils.defocus_load(p, "gctf"))
             else:
@@ -1206,7 +1737,7 @@ def run_load(case):
                 open(p, "w").write(_ctffind_text(case["rows"], case["comments"]))
                 out["df"] = _df_rows(ioutils.ctffind4_read(p))
                 out["df_load"] = _df_rows(ioutils.defocus_load(p, "ctffind4"))
-            out["df_array"] = _df_rows(ioutils.defocus_load(np.array([[float(x) for x in r] for r in out["df"]["rows"]]), "gctf"))
+            out["df_array"] = _try(lambda: _df_rows(ioutils.defocus_load(np.array([[float(x) for x in r] for r in out["df"]["rows"]]), "gctf")))
     return out
 
 
@@ -1235,7 +1766,7 @@ def run_wedge(case):
                 open(os.path.join(td, f"{t:03d}_dose.txt"), "w").write("".join(v + "\n" for v in tm["dose"]))
             if "ctf_rows" in tm:
                 if case["ctf"] == "gctf":
-                    open(os.path.join(td, f"{t:03d}_gctf.star"), "w").write(_gctf_text(tm["ctf_rows"], case["phase"], 0))
+                    open(os.path.join(td, f"{t:03d}_gctf.star"), "w").write(_gctf_text(tm["ctf_rows"], case["phase"], 0, case.get("col_order", "canonical"), case.get("perm")))
                 else:
                     open(os.path.join(td, f"{t:03d}_ctffind4.txt"), "w").write(_ctffind_text(tm["ctf_rows"], 3))
         ids = [tm["id"] for tm in tomos]
@@ -1246,7 +1777,8 @@ def run_wedge(case):
             tl = list(ids)
         else:
             tl = np.array(ids)
-        dims4 = [[tm["id"]] + [int(x) for x in tm["dims"]] for tm in tomos]
+        dims4 = [[tm["id"]] + [int(x) for x in tm["dims"]] for tm in _table_rows(case)]
+        ztab = _table_rows(case)
         if case["dims_mode"] == "array":
             dims = np.array(dims4)
         elif case["dims_mode"] == "file":
@@ -1256,19 +1788,26 @@ def run_wedge(case):
             dims = [int(x) for x in tomos[0]["dims"]]
         if case["z_mode"] == "array":
             if case.get("z_int_array"):
-                zs = np.array([[tm["id"], int(tm["z"])] for tm in tomos])
+                zs = np.array([[tm["id"], int(tm["z"])] for tm in ztab])
             else:
-                zs = np.array([[tm["id"], float(tm["z"])] for tm in tomos], dtype=float)
+                zs = np.array([[tm["id"], float(tm["z"])] for tm in ztab], dtype=float)
         elif case["z_mode"] == "file":
             zs = os.path.join(td, "zshift.txt")
-            open(zs, "w").write("".join(f"{tm['id']} {tm['z']}\n" for tm in tomos))
+            open(zs, "w").write("".join(f"{tm['id']} {tm['z']}\n" for tm in ztab))
         else:
             zs = float(tomos[0]["z"])
         tlt_fmt = os.path.join(td, "$xxx.mdoc" if case.get("tlt_from_mdoc") else "$xxx.tlt")
+        omit = set(case.get("omit", []))
         kw = dict(tomo_dim=dims, z_shift=zs, voltage=float(c["voltage"]), amp_contrast=float(c["amp"]), cs=float(c["cs"]))
+        for k, name in (("voltage", "voltage"), ("amp", "amp_contrast"), ("cs", "cs"), ("z_shift", "z_shift")):
+            if k in omit:
+                del kw[name]
         if case["ctf"]:
             kw["ctf_file_format"] = os.path.join(td, "$xxx_gctf.star" if case["ctf"] == "gctf" else "$xxx_ctffind4.txt")
-            kw["ctf_file_type"] = case["ctf"]
+            if "ctf_file_type" not in omit:
+                kw["ctf_file_type"] = case["ctf"]
+        inputs_before = {k: (v.copy() if isinstance(v, np.ndarray) else list(v)) for k, v in (("tomo_list", tl), ("tomo_dim", dims), ("z_shift", zs))
+                         if isinstance(v, (np.ndarray, list))}
         if case["dose"]:
             kw["dose_file_format"] = os.path.join(td, "$xxx_dose.txt" if case["dose"] == "txt" else "$xxx.mdoc")
         star = os.path.join(td, "wedge.star")
@@ -1280,7 +1819,9 @@ def run_wedge(case):
             out["sg2em"] = _try(lambda: _df_rows(wedgeutils.wedge_list_sg_to_em(star, os.path.join(td, "sg2em.em"))))
             out["sg2em_file"] = _try(lambda: _em_rows(os.path.join(td, "sg2em.em")))
         except Exception as e:
-            out["batch"] = {"raise": f"{type(e).__name__}: {str(e)[:200]}"}
+            out["batch"] = _exc(e)
+        out["inputs_changed"] = [k for k, v in inputs_before.items()
+                                 if not np.array_equal(np.asarray(v), np.asarray(dict(tomo_list=tl, tomo_dim=dims, z_shift=zs)[k]))]
         # single-tomogram call with array inputs (first tomogram)
         tm = tomos[0]
         def single():
@@ -1291,9 +1832,28 @@ def run_wedge(case):
                 ctf_df = ioutils.defocus_load(p, case["ctf"])
                 ctf_in = ctf_df.to_numpy(dtype=float) if len(tm["tilts"]) % 2 else ctf_df
             dose_in = np.array([float(v) for v in tm["dose"]]) if "dose" in tm else None
-            return _df_rows(wedgeutils.create_wedge_list_sg(tm["id"], [int(x) for x in tm["dims"]], float(c["pixel"]), tilts, z_shift=float(tm["z"]),
-                                                            ctf_file=ctf_in, ctf_file_type=case["ctf"] or "gctf", dose_file=dose_in,
-                                                            voltage=float(c["voltage"]), amp_contrast=float(c["amp"]), cs=float(c["cs"])))
+            kws = dict(z_shift=float(tm["z"]), ctf_file=ctf_in, ctf_file_type=case["ctf"] or "gctf", dose_file=dose_in,
+                       voltage=float(c["voltage"]), amp_contrast=float(c["amp"]), cs=float(c["cs"]))
+            for k, name in (("voltage", "voltage"), ("amp", "amp_contrast"), ("cs", "cs"), ("z_shift", "z_shift")):
+                if k in omit:
+                    del kws[name]
+            if "ctf_file_type" in omit or not case["ctf"]:
+                del kws["ctf_file_type"]
+            # G2: the SAME caller-owned arrays / DataFrame go into two calls (two tomogram numbers); they must come back untouched and
+            # the second list must be as right as the first
+            held = dict(tilts=tilts.copy(), ctf=(None if ctf_in is None else (ctf_in.copy())), dose=(None if dose_in is None else dose_in.copy()))
+            first = _df_rows(wedgeutils.create_wedge_list_sg(tm["id"], [int(x) for x in tm["dims"]], float(c["pixel"]), tilts, **kws))
+            second = _df_rows(wedgeutils.create_wedge_list_sg(tm["id"] + 1000, [int(x) for x in tm["dims"]], float(c["pixel"]), tilts, **kws))
+            changed = []
+            if not np.array_equal(held["tilts"], tilts):
+                changed.append("tilts")
+            if ctf_in is not None and not (held["ctf"].equals(ctf_in) if hasattr(ctf_in, "equals") else np.array_equal(held["ctf"], ctf_in)):
+                changed.append("ctf")
+            if dose_in is not None and not np.array_equal(held["dose"], dose_in):
+                changed.append("dose")
+            out["single_inputs_changed"] = changed
+            out["single_again"] = second
+            return first
         out["single"] = _try(single)
         em = os.path.join(td, "wedge.em")
         out["em"] = _try(lambda: _df_rows(wedgeutils.create_wedge_list_em_batch(tl, os.path.join(td, "$xxx.tlt"), output_file=em)))
@@ -1328,17 +1888,30 @@ def _expected_defocus(rows, phase=True):
     return out
 
 
+def _table_rows(case):
+    """rows of the per-tomogram dimension / z-shift tables in THEIR order (a permutation of the tomogram list, possibly with further rows)"""
+    tomos = case["tomos"]
+    perm = case.get("table_perm")
+    base = tomos[:len(perm)] if perm else tomos
+    rows = [base[i] for i in perm] + list(tomos[len(perm):]) if perm else list(tomos)
+    extra = case.get("table_extra") or []
+    if extra:
+        rows = rows[:1] + list(extra) + rows[1:]
+    return rows
+
+
 def _tomo_order(case):
     """a tomogram list given as a file goes through tlt_load and is processed in ascending order; arrays / lists in the given order"""
     return sorted(case["tomos"], key=lambda t: t["id"]) if case.get("tomo_list") == "file" else case["tomos"]
 
 
-def _expected_wedge(case):
-    """rows the statement demands (exact rationals), or None when the inputs are inconsistent (the call must refuse)"""
+def _expected_wedge(case, as_given=False):
+    """rows the statement demands (exact rationals), or None when the inputs are inconsistent (the call must refuse). Tilt FILES are
+    loaded ascending (the statement: "angles ascending"); an ARRAY of tilts is used as given (as_given)"""
     c = case["consts"]
     rows, em = [], []
     for tm in _tomo_order(case):
-        tilts = sorted(Fraction(t) for t in tm["tilts"])
+        tilts = [Fraction(t) for t in tm["tilts"]] if as_given else sorted(Fraction(t) for t in tm["tilts"])
         n = len(tilts)
         defocus = [r[4] for r in _expected_defocus(tm["ctf_rows"])] if "ctf_rows" in tm else None
         dose = None
@@ -1370,6 +1943,9 @@ def _cmp_table(got, cols, want, rels, what):
         return f"{what}: raised {got['raise']}"
     if got["columns"] != cols:
         return f"{what}: columns {got['columns']}, expected {cols}"
+    bad = [(c, t) for c, t in zip(got["columns"], got.get("dtypes") or []) if not _numeric_dtype(t)]
+    if bad:
+        return f"{what}: numeric column(s) returned with a non-numeric dtype {bad}"
     if len(got["rows"]) != len(want):
         return f"{what}: {len(got['rows'])} rows, expected {len(want)}"
     for n, (g, w) in enumerate(zip(got["rows"], want)):
@@ -1413,9 +1989,9 @@ def judge_load_in(case, obs, resp):
                 want = [Fraction(case["doses"][j][0]) + Fraction(case["doses"][j][1]) for j in order]
             must_raise, rel, reader = False, F64, "mdoc.Mdoc"
         else:
-            vals = [Fraction(repr(_f32(v))) for v in case["vals"]]
+            vals = [Fraction(v) for v in case["vals"]]          # the numbers IN the file (any float width the loader uses is within F32)
             want = sorted(vals) if sort else vals
-            must_raise, rel, reader = (not vals), Fraction(0), "one_value_per_line_read"
+            must_raise, rel, reader = (not vals), F32, "one_value_per_line_read"
         if reader is not None:
             table = [(".mdoc", "mdoc.Mdoc"), (".xml", "get_data_from_warp_xml")]
             if not tlt:
@@ -1426,14 +2002,20 @@ def judge_load_in(case, obs, resp):
             if resp["reader"] != indep:
                 out.append(dict(kind="corr", clause="loader-dispatch-model", detail=f"model sends {case['ext']!r} to {resp['reader']}, the extension table says {indep}"))
         if must_raise:
+            # (G6) that an empty input is refused is documented behaviour, not a clause of the statement: corr
             if not raised:
-                out.append(dict(kind="spec", clause="loader-accepts-empty", detail=f"{case['sub']} {case['input']}: empty input returned {got}"))
+                out.append(dict(kind="corr", clause="loader-accepts-empty", detail=f"{case['sub']} {case['input']}: empty input returned {got}"))
             if mod is not None:
                 out.append(dict(kind="corr", clause="loader-model-accepts-empty", detail=""))
             return out
         if raised:
-            out.append(dict(kind="spec", clause="loader-raises", detail=f"{case['sub']} {case['input']} {case.get('ext', '')}: {got['raise']}"))
+            out.append(_raised(got, "loader-raises", f"{case['sub']} {case['input']} {case.get('ext', '')}: {got['raise']}"))
             return out
+        if obs.get("input_unchanged") is False:
+            out.append(dict(kind="spec", clause="caller-input-mutated", detail=f"{case['sub']}: the {case['input']} passed in was edited in place"))
+        for key, dt in obs.get("dtypes", {}).items():
+            if not _numeric_dtype(dt):
+                out.append(dict(kind="spec", clause="loader-dtype", detail=f"{case['sub']} {case['input']} {case.get('ext', '')}: returned dtype {dt}, not a numeric one"))
         if len(got) != len(want) or any(not _close(g, w, rel) for g, w in zip(got, want)):
             out.append(dict(kind="spec", clause="loader-values", detail=f"{case['sub']} {case['input']} {case.get('ext', '')} sort={case['sort']}: returned {got[:6]}, "
                                                                          f"the input holds {[float(w) for w in want[:6]]}"))
@@ -1441,8 +2023,6 @@ def judge_load_in(case, obs, resp):
             out.append(dict(kind="corr", clause="loader-model-refuses", detail=f"{case['sub']} {case['input']} {case.get('ext', '')}"))
         else:
             m = [Fraction(a, b) for a, b in mod]
-            if case["input"] == "file" and case["ext"] != ".mdoc":
-                m = [Fraction(repr(_f32(x))) for x in m]       # the file readers return float32
             if len(m) != len(got) or any(not _close(g, x, rel) for g, x in zip(got, m)):
                 out.append(dict(kind="corr", clause="loader-vs-model", detail=f"model {[float(x) for x in m[:6]]} / impl {got[:6]}"))
         return out
@@ -1450,7 +2030,9 @@ def judge_load_in(case, obs, resp):
     want = _expected_defocus(case["rows"], True)
     if case["input"] == "frame":
         if not obs.get("same_object"):
-            out.append(dict(kind="spec", clause="defocus-frame-not-as-given", detail="a DataFrame input is not returned as is"))
+            out.append(dict(kind="corr", clause="defocus-frame-not-as-given", detail="a DataFrame input is not returned as is"))
+        if obs.get("input_unchanged") is False:
+            out.append(dict(kind="spec", clause="caller-input-mutated", detail="defocus_load edited the DataFrame passed in"))
         d = _cmp_table(got, DEF_COLS, want, {c: F64 for c in DEF_COLS}, "defocus_load(DataFrame)")
         if d:
             out.append(dict(kind="spec", clause="defocus-frame-values", detail=d))
@@ -1460,7 +2042,7 @@ def judge_load_in(case, obs, resp):
     if case["input"] == "array":
         if case["width"] != 5:
             if not raised:
-                out.append(dict(kind="spec", clause="defocus-array-width", detail=f"an N x {case['width']} array is accepted"))
+                out.append(dict(kind="corr", clause="defocus-array-width", detail=f"an N x {case['width']} array is accepted"))
             if mod is not None:
                 out.append(dict(kind="corr", clause="defocus-array-width-model", detail=""))
             return out
@@ -1470,30 +2052,47 @@ def judge_load_in(case, obs, resp):
         if mod is None or _model_rows(mod) != want:
             out.append(dict(kind="corr", clause="defocus-array-model", detail=""))
         return out
-    ft = case["file_type"].lower()
+    ft = "gctf" if case["file_type"] is None else case["file_type"].lower()       # None: keyword omitted, documented default "gctf"
     known = {"gctf": "gctf_read", "ctffind4": "ctffind4_read", "warp": "warp_ctf_read"}
     if resp["reader"] != known.get(ft):
         out.append(dict(kind="corr", clause="defocus-dispatch-model", detail=f"file_type {case['file_type']!r}: model reader {resp['reader']}, table says {known.get(ft)}"))
     matches = (ft == "gctf" and case["content"] == "gctf") or (ft == "ctffind4" and case["content"] == "ctffind")
     if ft not in known:
         if not raised or "not supported" not in got["raise"]:
-            out.append(dict(kind="spec", clause="defocus-unknown-type", detail=f"file_type {case['file_type']!r}: {got}"))
+            out.append(dict(kind="corr", clause="defocus-unknown-type", detail=f"file_type {case['file_type']!r}: {got}"))
         if mod is not None:
             out.append(dict(kind="corr", clause="defocus-unknown-type-model", detail=""))
     elif matches:
         g = case["content"] == "gctf"
         want = _expected_defocus(case["rows"], case["phase"] or not g)
         rel = F64 if g else F32
-        d = _cmp_table(got, DEF_COLS, want, {c: rel for c in DEF_COLS}, f"defocus_load(path, {case['file_type']!r})")
+        d = _cmp_table(got, DEF_COLS, want, {c: rel for c in DEF_COLS}, f"defocus_load(path, {case['file_type']!r}) [gctf columns in {case.get('col_order', 'canonical')} order]")
         if d:
-            out.append(dict(kind="spec", clause="defocus-units-or-mean", detail=d))
+            out.append(_raised(got, "defocus-units-or-mean", d) if raised else dict(kind="spec", clause="defocus-units-or-mean", detail=d))
         if mod is None or _model_rows(mod) != want:
             out.append(dict(kind="corr", clause="defocus-file-model", detail=f"model {mod and mod[:1]}"))
+        elif not raised:
+            d = _cmp_table(got, DEF_COLS, _model_rows(mod), {c: rel for c in DEF_COLS}, "implementation vs model")
+            if d:
+                out.append(dict(kind="corr", clause="defocus-impl-vs-model", detail=d))
+        out += _judge_gctf_code(case, resp.get("code"))
     else:
         # a file of the other program under this type: the reader chosen must be the one named by file_type (it then fails or mis-reads;
         # only the dispatch is judged, by the model's reader above)
         pass
     return out
+
+
+def _judge_gctf_code(case, resp):
+    """the CODE-LEVEL model of gctf_read (name-list selection on the table in file order + positional scaling) against the
+    specification-level reader: both are the model, a difference is a corr finding (it appears when the translator re-extracts another
+    selection / slice from the source)"""
+    if case.get("content", "gctf") != "gctf" or not isinstance(resp, dict) or "spec" not in resp:
+        return []
+    if resp.get("out") is None or resp["out"] != resp["spec"]:
+        return [dict(kind="corr", clause="gctf-code-model-vs-spec-model", detail=f"columns in {case.get('col_order')} order: code-level model {resp.get('out') and resp['out'][:1]}, "
+                                                                                  f"specification-level {resp['spec'] and resp['spec'][:1]}")]
+    return []
 
 
 def judge_load(case, obs, resp):
@@ -1502,26 +2101,32 @@ def judge_load(case, obs, resp):
         return [dict(kind="corr", clause="driver-error", detail=str(resp))]
     if case["sub"].endswith("_in"):
         return judge_load_in(case, obs, resp)
+    for key, dt in obs.get("dtypes", {}).items():
+        if not _numeric_dtype(dt):
+            out.append(dict(kind="spec", clause="loader-dtype", detail=f"{case['sub']} {key}: returned dtype {dt}, not a numeric one"))
+
+    def same(got, want, rel):
+        return len(got) == len(want) and all(_close(g, w, rel) for g, w in zip(got, want))
+    # the statement: "loaders return the numbers in their files" - the numbers of the file, within the relative tolerance 2e-6 that any
+    # float width >= float32 meets (that the reader uses float32 is pinned by the translator: one_value_dtype_documented)
+    exact = [Fraction(v) for v in case.get("vals", [])]
     if case["sub"] == "tlt":
-        want = [_f32(v) for v in case["vals"]]
-        if [float(x) for x in obs["unsorted"]] != want:
-            out.append(dict(kind="spec", clause="tlt-values", detail=f"tlt_load(sort_angles=False) = {obs['unsorted'][:6]}, file holds {want[:6]}"))
-        if [float(x) for x in obs["sorted"]] != sorted(want):
-            out.append(dict(kind="spec", clause="tlt-ascending", detail=f"tlt_load = {obs['sorted'][:8]}, ascending file values are {sorted(want)[:8]}"))
-        raw = [float(v) for v in case["vals"]]
-        if [float(x) for x in obs["array"]] != raw or [float(x) for x in obs["list"]] != raw:
+        if not same(obs["unsorted"], exact, F32):
+            out.append(dict(kind="spec", clause="tlt-values", detail=f"tlt_load(sort_angles=False) = {obs['unsorted'][:6]}, file holds {case['vals'][:6]}"))
+        if not same(obs["sorted"], sorted(exact), F32):
+            out.append(dict(kind="spec", clause="tlt-ascending", detail=f"tlt_load = {obs['sorted'][:8]}, ascending file values are {[float(x) for x in sorted(exact)[:8]]}"))
+        if not same(obs["array"], exact, Fraction(0)) or not same(obs["list"], exact, F64):
             out.append(dict(kind="spec", clause="tlt-array-input", detail="array / list input is not returned as given"))
-        ms = [_f32(Fraction(a, b)) for a, b in resp["sorted"]]
-        mu = [_f32(Fraction(a, b)) for a, b in resp["unsorted"]]
-        if ms != [float(x) for x in obs["sorted"]] or mu != [float(x) for x in obs["unsorted"]]:
-            out.append(dict(kind="corr", clause="tlt-vs-model", detail=f"model sorted {ms[:6]} / impl {obs['sorted'][:6]}"))
+        ms = [Fraction(a, b) for a, b in resp["sorted"]]
+        mu = [Fraction(a, b) for a, b in resp["unsorted"]]
+        if not same(obs["sorted"], ms, F32) or not same(obs["unsorted"], mu, F32):
+            out.append(dict(kind="corr", clause="tlt-vs-model", detail=f"model sorted {[float(x) for x in ms[:6]]} / impl {obs['sorted'][:6]}"))
     elif case["sub"] == "dose":
-        want = [_f32(v) for v in case["vals"]]
-        if [float(x) for x in obs["file"]] != want:
-            out.append(dict(kind="spec", clause="dose-values", detail=f"total_dose_load = {obs['file'][:6]}, file holds {want[:6]}"))
-        if [float(x) for x in obs["array"]] != [float(v) for v in case["vals"]]:
+        if not same(obs["file"], exact, F32):
+            out.append(dict(kind="spec", clause="dose-values", detail=f"total_dose_load = {obs['file'][:6]}, file holds {case['vals'][:6]}"))
+        if not same(obs["array"], exact, Fraction(0)):
             out.append(dict(kind="spec", clause="dose-array-input", detail="array input is not returned as given"))
-        if [_f32(Fraction(a, b)) for a, b in resp["dose"]] != [float(x) for x in obs["file"]]:
+        if not same(obs["file"], [Fraction(a, b) for a, b in resp["dose"]], F32):
             out.append(dict(kind="corr", clause="dose-vs-model", detail=""))
     else:
         g = case["sub"] == "gctf"
@@ -1529,24 +2134,36 @@ def judge_load(case, obs, resp):
         rel = F64 if g else F32
         rels = {c: rel for c in DEF_COLS}
         for key in ("df", "df_load", "df_array"):
-            d = _cmp_table(obs[key], DEF_COLS, want, rels, f"{case['sub']} {key}")
+            d = _cmp_table(obs[key], DEF_COLS, want, rels, f"{case['sub']} {key}" + (f" [columns in {case.get('col_order', 'canonical')} order]" if g else ""))
             if d:
                 out.append(dict(kind="spec", clause="defocus-units-or-mean", detail=d)); break
-        model = _model_rows(resp)
+        spec_resp = resp["spec"] if g else resp
+        model = _model_rows(spec_resp) if spec_resp is not None else None
         if model != want:
-            out.append(dict(kind="corr", clause="defocus-model-vs-statement", detail=f"model row 0 {[float(x) for x in model[0]]} vs {[float(x) for x in want[0]]}"))
+            out.append(dict(kind="corr", clause="defocus-model-vs-statement", detail=f"model row 0 {model and [float(x) for x in model[0]]} vs {[float(x) for x in want[0]]}"))
+        else:
+            d = _cmp_table(obs["df"], DEF_COLS, model, rels, "implementation vs model")
+            if d:
+                out.append(dict(kind="corr", clause="defocus-impl-vs-model", detail=d))
+        if g:
+            out += _judge_gctf_code(case, resp)
     return out
 
 
-def judge_wedge(case, obs, resp):
+def judge_wedge(case, obs, resp, resp1=None):
     out = []
     if "error" in resp:
         return [dict(kind="corr", clause="driver-error", detail=str(resp))]
     want, em = _expected_wedge(case)
     B = obs["batch"]
+    if obs.get("inputs_changed"):
+        out.append(dict(kind="spec", clause="caller-input-mutated", detail=f"create_wedge_list_sg_batch edited its argument(s) {obs['inputs_changed']} in place"))
+    if obs.get("single_inputs_changed"):
+        out.append(dict(kind="spec", clause="caller-input-mutated", detail=f"create_wedge_list_sg edited its argument(s) {obs['single_inputs_changed']} in place"))
     if want is None:
         if "raise" not in B:
-            out.append(dict(kind="spec", clause="wedge-accepts-inconsistent", detail="ctf / dose entries differ in number from the tilts, yet a wedge list is returned"))
+            # (G6) refusing inconsistent inputs is documented behaviour (check_data_consistency), not a clause of the statement: corr
+            out.append(dict(kind="corr", clause="wedge-accepts-inconsistent", detail="ctf / dose entries differ in number from the tilts, yet a wedge list is returned"))
         if resp["rows"] is not None:
             out.append(dict(kind="corr", clause="wedge-model-accepts-inconsistent", detail=""))
         return out
@@ -1557,8 +2174,8 @@ def judge_wedge(case, obs, resp):
     rels = {cname: F64 for cname in WEDGE_COLS}
     rels.update(tilt_angle=F32, defocus=F32, exposure=(F64 if case["dose"] == "mdoc" else F32))
     if "raise" in B:
-        out.append(dict(kind="spec", clause="wedge-raises", detail=B["raise"],
-                        k2=bool(case.get("z_int_array")) and "Unsupported input type: <class 'numpy.int" in B["raise"]))
+        out.append(_raised(B, "wedge-raises", B["raise"],
+                           k2=bool(case.get("z_int_array")) and "Unsupported input type: <class 'numpy.int" in B["raise"]))
     else:
         d = _cmp_table(B, cols, wrows, rels, "create_wedge_list_sg_batch")
         if d:
@@ -1578,13 +2195,29 @@ def judge_wedge(case, obs, resp):
     if "mdoc" not in case["tomos"][0] or True:
         tm = case["tomos"][0]
         one = dict(case, tomos=[dict((k, v) for k, v in tm.items() if k not in ("mdoc", "mdoc_doses"))], dose=("txt" if "dose" in tm else None))
-        w1, _ = _expected_wedge(one)
+        w1, _ = _expected_wedge(one, as_given=True)
         if w1 is not None:
             keep1 = [i for i, cname in enumerate(WEDGE_COLS) if (cname != "defocus" or has_ctf) and (cname != "exposure" or "dose" in tm)]
+            cols1 = [WEDGE_COLS[i] for i in keep1]
             rels1 = dict(rels, tilt_angle=F64, exposure=F64)
-            d = _cmp_table(obs["single"], [WEDGE_COLS[i] for i in keep1], [[r[i] for i in keep1] for r in w1], rels1, "create_wedge_list_sg (array inputs)")
+            d = _cmp_table(obs["single"], cols1, [[r[i] for i in keep1] for r in w1], rels1, "create_wedge_list_sg (array inputs)")
             if d:
                 out.append(dict(kind="spec", clause="wedge-single-rows", detail=d))
+            elif "single_again" in obs:
+                # G2: the second call with the very same arrays (another tomogram number) is judged as strictly as the first
+                w2 = [[r[0] + 1000] + r[1:] for r in w1]
+                d = _cmp_table(obs["single_again"], cols1, [[r[i] for i in keep1] for r in w2], rels1, "create_wedge_list_sg, second call with the same arrays")
+                if d:
+                    out.append(dict(kind="spec", clause="wedge-single-rows-second-call", detail=d))
+            # implementation vs the CODE-LEVEL model (np.repeat of the dimension table, z.values[0][0]) on the arrays as given
+            if resp1 is not None and "raise" not in obs["single"]:
+                sc = (resp1.get("single_code") or [None])[0]
+                if sc is None:
+                    out.append(dict(kind="corr", clause="wedge-single-model-refuses", detail=""))
+                else:
+                    d = _cmp_table(obs["single"], cols1, [[r[i] for i in keep1] for r in _model_rows(sc)], rels1, "create_wedge_list_sg vs code-level model")
+                    if d:
+                        out.append(dict(kind="corr", clause="wedge-single-impl-vs-model", detail=d))
     for key, cn in (("em", ["tomo_num", "min_angle", "max_angle"]), ("em_file", ["tomo_id", "min_tilt_angle", "max_tilt_angle"])):
         d = _cmp_table(obs[key], cn, em, {c: F32 for c in cn}, f"create_wedge_list_em_batch {key}")
         if d:
@@ -1595,6 +2228,26 @@ def judge_wedge(case, obs, resp):
     else:
         if _model_rows(resp["rows"]) != want:
             out.append(dict(kind="corr", clause="wedge-model-vs-statement", detail="model rows differ from the independently evaluated statement"))
+        # audit item 6: the IMPLEMENTATION's rows against the CODE-LEVEL model (tables in their own row order, look-ups by tomogram number,
+        # np.repeat, values[0][0]); and code-level = specification-level model (theorem wedge_batch_code_spec, here on the instance)
+        if resp.get("rows_code") is None:
+            out.append(dict(kind="corr", clause="wedge-code-model-refuses", detail=""))
+        else:
+            if resp.get("code_eq_spec") is not True:
+                out.append(dict(kind="corr", clause="wedge-code-model-vs-spec-model", detail="wedgeBatchCode differs from wedgeBatch on this input"))
+            if "raise" not in B:
+                d = _cmp_table(B, cols, [[r[i] for i in keep] for r in _model_rows(resp["rows_code"])], rels, "create_wedge_list_sg_batch vs code-level model")
+                if d:
+                    out.append(dict(kind="corr", clause="wedge-impl-vs-model", detail=d))
+        if resp["em"] is not None and "raise" not in obs["em"]:
+            d = _cmp_table(obs["em"], ["tomo_num", "min_angle", "max_angle"], _model_rows(resp["em"]), {c: F32 for c in ("tomo_num", "min_angle", "max_angle")}, "create_wedge_list_em_batch vs model")
+            if d:
+                out.append(dict(kind="corr", clause="wedge-em-impl-vs-model", detail=d))
+        if resp["sg2em"] is not None and "raise" not in B and "raise" not in obs.get("sg2em", {"raise": 1}):
+            d = _cmp_table(obs["sg2em"], ["tomo_id", "min_tilt_angle", "max_tilt_angle"], _model_rows(resp["sg2em"]),
+                           {"tomo_id": F64, "min_tilt_angle": Fraction(1, 10 ** 5), "max_tilt_angle": Fraction(1, 10 ** 5)}, "wedge_list_sg_to_em vs model")
+            if d:
+                out.append(dict(kind="corr", clause="wedge-sg2em-impl-vs-model", detail=d))
         if resp["header"] != cols:
             out.append(dict(kind="corr", clause="wedge-model-header", detail=f"{resp['header']} vs {cols}"))
         if resp["em"] is None or _model_rows(resp["em"]) != em:
@@ -1615,13 +2268,203 @@ def judge_wedge(case, obs, resp):
     return out
 
 
+
+# ------------------------------------------------------------------ G2: cross-call state (same caller-owned object / same path across calls)
+def gen_g2(rng, tier):
+    """(indices) ONE integer ndarray of image numbers applied to two or three mdocs through the console-level mdoc.remove_images
+    (indices_load inside); (reread) ONE path read, edited in place, read again unchanged, then legitimately rewritten and read a third
+    time. Every call is judged like a first call and the caller's array is compared before / after each call."""
+    if rng.random() < 0.5:
+        n_calls = rng.choice([2, 2, 3])
+        sizes = [rng.randint(3, 10) for _ in range(n_calls)]
+        from1 = rng.choice([True, True, False, None])          # None: keyword omitted (documented default: numbered from 1)
+        lo = 0 if from1 is False else 1
+        m = min(sizes)
+        idx = sorted(rng.sample(range(lo, m + lo), rng.randint(1, max(1, m // 2))))
+        if rng.random() < 0.3:
+            rng.shuffle(idx)
+        return dict(kind="g2", sub="indices", texts=[_mdoc_text(rng, k, allow_exp=False) for k in sizes], idx=idx, from1=from1,
+                    dtype=rng.choice(["int64", "int64", "int32"]), as_list=(rng.random() < 0.15))
+    n1, n2 = rng.randint(2, 9), rng.randint(2, 9)
+    return dict(kind="g2", sub="reread", text=_mdoc_text(rng, n1, allow_exp=False), steps1=_steps(rng, n1) or [dict(k="remove", idxs=[0], kept_only=True)],
+                steps2=_steps(rng, n1), text2=_mdoc_text(rng, n2, allow_exp=False), same_size=(rng.random() < 0.3))
+
+
+def run_g2(case):
+    import numpy as np
+    from cryocat import mdoc
+    out = {"calls": []}
+    with tempfile.TemporaryDirectory(prefix="c17_") as td:
+        if case["sub"] == "indices":
+            idx = list(case["idx"]) if case.get("as_list") else np.array(case["idx"], dtype=case["dtype"])
+            for k, text in enumerate(case["texts"]):
+                p = os.path.join(td, f"in{k}.mdoc")
+                with open(p, "w", newline="") as f:
+                    f.write(text)
+                q = os.path.join(td, f"out{k}.mdoc")
+                call = {"idx_before": [int(x) for x in idx]}
+                try:
+                    call["fresh"] = _canon_mdoc(mdoc.Mdoc(p))
+                    if case["from1"] is None:
+                        m = mdoc.remove_images(p, idx, output_file=q)
+                    else:
+                        m = mdoc.remove_images(p, idx, numbered_from_1=case["from1"], output_file=q)
+                    call["after"] = _canon_mdoc(m)
+                    call["written"] = open(q, newline="").read()
+                    call["reread"] = _try(lambda: _canon_mdoc(mdoc.Mdoc(q)))
+                except Exception as e:
+                    call["after"] = _exc(e)
+                call["idx_after"] = [int(x) for x in idx]
+                call["idx_type"] = type(idx).__name__ + (":" + str(idx.dtype) if isinstance(idx, np.ndarray) else "")
+                out["calls"].append(call)
+            return out
+        p = os.path.join(td, "a.mdoc")
+
+        def put(text):
+            with open(p, "w", newline="") as f:
+                f.write(text)
+
+        def apply(m, steps):
+            for st in steps:
+                if st["k"] == "sort":
+                    m.sort_by_tilt(reset_z_value=st.get("reset", False))
+                else:
+                    m.remove_images(list(st["idxs"]), kept_only=st.get("kept_only", True))
+        put(case["text"])
+        for steps in (case["steps1"], case["steps2"]):
+            call = {}
+            try:
+                m = mdoc.Mdoc(p)
+                call["fresh"] = _canon_mdoc(m)
+                try:
+                    apply(m, steps)
+                    call["after"] = _canon_mdoc(m)
+                except Exception as e:
+                    call["after"] = _exc(e)
+            except Exception as e:
+                call["fresh"] = _exc(e)
+            out["calls"].append(call)
+        # the same path legitimately REWRITTEN (other content; with same_size the byte length is kept) and read again
+        t2 = case["text2"]
+        if case.get("same_size"):
+            t2 = (t2 + " " * len(case["text"]))[:len(case["text"])] if len(t2) < len(case["text"]) else t2
+        put(t2)
+        out["text2"] = t2
+        out["third"] = _try(lambda: _canon_mdoc(mdoc.Mdoc(p)))
+    return out
+
+
+def requests_g2(case, obs):
+    if case["sub"] == "indices":
+        st = dict(k="remove", idxs=case["idx"], from1=(True if case["from1"] is None else case["from1"]))
+        return [_mdoc_request(t, [st], False) for t in case["texts"]]
+    return [_mdoc_request(case["text"], case["steps1"], False), _mdoc_request(case["text"], case["steps2"], False),
+            _mdoc_request(obs.get("text2", case["text2"]), [], False)]
+
+
+def _judge_ops(P, A, steps, mod_after, what):
+    """flags / order after an op sequence: the statement evaluated independently on labels (spec), then implementation vs model (corr)"""
+    out = []
+    if "raise" in A:
+        exp_removed, order = _expected_flags(P, steps)
+        if exp_removed is not None:
+            out.append(_raised(A, "ops-raise", f"{what}: {A['raise']}"))
+        return out
+    exp_removed, order = _expected_flags(P, steps)
+    got_removed = {r["label"] for r in A["rows"] if r["removed"] == ["b", True]}
+    if exp_removed is not None and got_removed != exp_removed:
+        out.append(dict(kind="spec", clause="removed-flags", detail=f"{what}: removed labels {sorted(got_removed)}, the index subset demands {sorted(exp_removed)}"))
+    if order is not None and [r["label"] for r in A["rows"]] != order:
+        out.append(dict(kind="spec", clause="sort-order", detail=f"{what}: row order {[r['label'] for r in A['rows']]}, ascending tilt demands {order}"))
+    if mod_after is None:
+        if exp_removed is not None:
+            out.append(dict(kind="corr", clause="ops-model-raises", detail=what))
+    elif not any(s.get("reset") for s in steps if s["k"] == "sort") or P["sid"] == "ZValue":
+        d = _mdoc_eq(A, mod_after)
+        if d:
+            out.append(dict(kind="corr", clause="ops-vs-model", detail=f"{what}: {d}"))
+    return out
+
+
+def judge_g2(case, obs, resps):
+    out = []
+    if any("error" in r for r in resps):
+        return [dict(kind="corr", clause="driver-error", detail=str(resps)[:300])]
+    if case["sub"] == "indices":
+        from1 = True if case["from1"] is None else case["from1"]
+        steps = [dict(k="remove", idxs=case["idx"], from1=from1)]
+        for k, (call, mod) in enumerate(zip(obs["calls"], resps)):
+            what = f"call {k + 1} of {len(obs['calls'])} with the same index array {case['idx']} (numbered_from_1={case['from1']})"
+            if call["idx_after"] != case["idx"]:
+                out.append(dict(kind="spec", clause="caller-array-mutated",
+                                detail=f"{what}: the caller's {call['idx_type']} was {call['idx_before']} before and {call['idx_after']} after the call"))
+            if "fresh" not in call or "raise" in call.get("fresh", {}):
+                out.append(_raised(call.get("after", {"raise": "?"}), "reader-raises", what)); continue
+            P = call["fresh"]
+            d = _mdoc_eq(P, mod["parsed"])
+            if d:
+                out.append(dict(kind="corr", clause="read-vs-model", detail=d))
+            out += _judge_ops(P, call["after"], steps, mod["after"], what)
+            if "raise" not in call["after"] and "written" in call:
+                A = call["after"]
+                want = [r for r in A["rows"] if r["removed"] == ["b", False]]
+                R = call["reread"]
+                if not want:
+                    pass
+                elif "raise" in R:
+                    out.append(_raised(R, "written-omits-removed", f"{what}: written file cannot be re-read: {R['raise']}"))
+                else:
+                    exp_removed, _ = _expected_flags(P, steps)
+                    if exp_removed is not None:
+                        keep_labels = [r["label"] for r in P["rows"] if r["label"] not in exp_removed]
+                        byl = {r["label"]: r for r in P["rows"]}
+                        d = _same_object(dict(P, rows=[byl[l] for l in keep_labels]), R, ignore_flags=True)
+                        if d and not _k1_only(dict(P, rows=[byl[l] for l in keep_labels]), R):
+                            out.append(dict(kind="spec", clause="written-omits-removed", detail=f"{what}: the written file must hold exactly the images not addressed: {d}"))
+                if mod["written"] is not None and call["written"] != "".join(l + "\n" for l in mod["written"]):
+                    out.append(dict(kind="corr", clause="ops-written-text-vs-model", detail=_first_line_diff(call["written"], mod["written"])))
+        return out
+    # reread: every read of the unchanged file gives the object of the first read, untouched by what was done to earlier objects
+    c1, c2 = obs["calls"]
+    if "raise" in c1.get("fresh", {"raise": "?"}):
+        return [_raised(c1["fresh"], "reader-raises", c1["fresh"]["raise"])]
+    if "raise" in c2.get("fresh", {"raise": "?"}):
+        return [_raised(c2["fresh"], "reader-raises", "second read of the unchanged file: " + c2["fresh"]["raise"])]
+    d = _same_object(c1["fresh"], c2["fresh"])
+    if d:
+        out.append(dict(kind="spec", clause="reread-same-file-differs",
+                        detail=f"the unchanged file read a second time (after in-place operations {case['steps1']} on the first object): {d}"))
+    for k, (call, steps, mod) in enumerate(zip((c1, c2), (case["steps1"], case["steps2"]), resps[:2])):
+        d = _mdoc_eq(call["fresh"], mod["parsed"])
+        if d:
+            out.append(dict(kind="corr", clause="read-vs-model", detail=f"read {k + 1}: {d}"))
+        out += _judge_ops(c1["fresh"], call["after"], steps, mod["after"], f"operations on the object of read {k + 1}")
+    T = obs["third"]
+    m3 = resps[2]["parsed"]
+    if "raise" in T:
+        if m3 is not None:
+            out.append(_raised(T, "reader-raises", "read after the file was rewritten: " + T["raise"]))
+    elif m3 is None:
+        out.append(dict(kind="corr", clause="malformed-accepted", detail="rewritten file"))
+    else:
+        d = _mdoc_eq(T, m3)
+        if d:
+            # the model is a pure function of the text; what the file holds NOW is decided by the text alone
+            stale = _same_object(c1["fresh"], T) is None
+            out.append(dict(kind=("spec" if stale else "corr"), clause=("stale-read-after-rewrite" if stale else "read-vs-model"),
+                            detail=f"the path was rewritten with other content, the read returns {'the OLD content' if stale else 'something else'}: {d}"))
+    return out
+
+
 # ------------------------------------------------------------------ module interface
 def generate(rng, tier, n):
     for _ in range(n):
         k = rng.random()
-        if k < 0.5:
+        if k < 0.44:
             yield gen_mdoc(rng, tier)
-        elif k < 0.77:
+        elif k < 0.54:
+            yield gen_g2(rng, tier)
+        elif k < 0.78:
             yield gen_load(rng, tier)
         else:
             yield gen_wedge(rng, tier)
@@ -1630,6 +2473,8 @@ def generate(rng, tier, n):
 def run_impl(case):
     if case["kind"] == "mdoc":
         return run_mdoc(case)
+    if case["kind"] == "g2":
+        return run_g2(case)
     if case["kind"] == "load":
         return run_load(case)
     return run_wedge(case)
@@ -1642,9 +2487,23 @@ def _lines(text):
     return ls
 
 
+def _model_steps(steps):
+    """steps for the driver: a keyword the adapter OMITS is omitted here too (the model then uses the default the translator extracted)"""
+    return [{k: v for k, v in st.items() if not (st.get("omit_kw") and k in ("kept_only", "reset")) and k != "omit_kw"} for st in steps]
+
+
+def _mdoc_request(text, steps, write_removed):
+    r = dict(op="mdoc", lines=_lines(text), steps=_model_steps(steps))
+    if write_removed is not None:
+        r["write_removed"] = write_removed
+    return r
+
+
 def requests(case, obs):
     if case["kind"] == "mdoc":
-        return [dict(op="mdoc", lines=_lines(case["text"]), steps=case.get("steps", []), write_removed=case.get("write_removed", False))]
+        return [_mdoc_request(case["text"], case.get("steps", []), case.get("write_removed", False))]
+    if case["kind"] == "g2":
+        return requests_g2(case, obs)
     if case["kind"] == "load" and case["sub"].endswith("_in"):
         if case["sub"] in ("tlt_in", "dose_in"):
             r = dict(op=case["sub"], kind=case["input"])
@@ -1663,12 +2522,17 @@ def requests(case, obs):
             arr = [[[x.numerator, x.denominator] for x in r][:w] + [[0, 1]] * max(0, w - 5) for r in want]
             return [dict(op="defocus_in", kind=case["input"], arr=arr)]
         g = case["content"] == "gctf"
-        return [dict(op="defocus_in", kind="file", file_type=case["file_type"], content=case["content"],
-                     rows=[[_rat(r[0]), _rat(r[1]), _rat(r[2]), (_rat(r[3]) if (case["phase"] or not g) else None)] for r in case["rows"]])]
+        rs = [dict(op="defocus_in", kind="file", file_type=("gctf" if case["file_type"] is None else case["file_type"]), content=case["content"],
+                   rows=[[_rat(r[0]), _rat(r[1]), _rat(r[2]), (_rat(r[3]) if (case["phase"] or not g) else None)] for r in case["rows"]])]
+        if g:
+            rs.append(_gctf_request(case["rows"], case["phase"], 0, case.get("col_order", "canonical"), case.get("perm")))
+        return rs
     if case["kind"] == "load":
         if case["sub"] in ("tlt", "dose"):
             return [dict(op="tlt", vals=[_rat(v) for v in case["vals"]])]
         g = case["sub"] == "gctf"
+        if g:
+            return [_gctf_request(case["rows"], case["phase"], case["extra_cols"], case.get("col_order", "canonical"), case.get("perm"))]
         return [dict(op="defocus", kind=("gctf" if g else "ctffind"),
                      rows=[[_rat(r[0]), _rat(r[1]), _rat(r[2]), (_rat(r[3]) if (case["phase"] or not g) else None)] for r in case["rows"]])]
     c = case["consts"]
@@ -1691,28 +2555,61 @@ def requests(case, obs):
             if not case.get("tlt_from_mdoc"):
                 t["tilts"] = [_rat(x) for x in tm["tilts"]]
         tomos.append(t)
-    return [dict(op="wedge", tomo_list_from_file=(case.get("tomo_list") == "file"), consts=[_rat(c["pixel"]), _rat(c["voltage"]), _rat(c["amp"]), _rat(c["cs"])], tomos=tomos)]
+    consts = [_rat(c["pixel"]), _rat(c["voltage"]), _rat(c["amp"]), _rat(c["cs"])]
+    batch = dict(op="wedge", tomo_list_from_file=(case.get("tomo_list") == "file"), consts=consts, tomos=tomos)
+    # the per-tomogram tables in THEIR row order (a single dimension triple / scalar z-shift is repeated along the processed list)
+    order_ids = [tm["id"] for tm in _tomo_order(case)]
+    if case.get("dims_mode") == "single":
+        batch["dim_table"] = [[i, [_rat(x) for x in case["tomos"][0]["dims"]]] for i in order_ids]
+    else:
+        batch["dim_table"] = [[tm["id"], [_rat(x) for x in tm["dims"]]] for tm in _table_rows(case)]
+    if case.get("z_mode") == "scalar":
+        batch["z_table"] = [[i, _rat(case["tomos"][0]["z"])] for i in order_ids]
+    else:
+        batch["z_table"] = [[tm["id"], _rat(tm["z"])] for tm in _table_rows(case)]
+    # the single-tomogram call gets ARRAYS: tilts as given (not sorted), no mdoc
+    t0 = {k: v for k, v in tomos[0].items() if k not in ("mdoc", "dose_from_mdoc")}
+    t0["tilts"] = [_rat(x) for x in case["tomos"][0]["tilts"]]
+    t0["as_given"] = True
+    if "dose" not in case["tomos"][0]:
+        t0["dose"] = None
+    single = dict(op="wedge", tomo_list_from_file=False, consts=consts, tomos=[t0])
+    return [batch, single]
 
 
 def judge(case, obs, resps):
     if "error" in obs and "where" in obs:
+        if not obs.get("where"):
+            # G4: no frame of the traceback lies inside /cryocat/: the harness or a third-party library failed, not cryoCAT
+            return [dict(kind="corr", clause="harness-or-library-raised", detail=obs["error"])]
         return [dict(kind="spec", clause="raises", detail=obs["error"] + " @" + obs.get("where", ""))]
     if case["kind"] == "mdoc":
         return judge_mdoc(case, obs, resps[0])
+    if case["kind"] == "g2":
+        return judge_g2(case, obs, resps)
     if case["kind"] == "load":
+        if len(resps) > 1:
+            return judge_load(case, obs, dict(resps[0], code=resps[1]))
         return judge_load(case, obs, resps[0])
-    return judge_wedge(case, obs, resps[0])
+    return judge_wedge(case, obs, resps[0], resps[1] if len(resps) > 1 else None)
 
 
 def classify(case, obs, finding):
     if finding.get("clause") == "mdoc-roundtrip" and finding.get("k1"):
         return "C17-K1"
+    if finding.get("clause") == "sort-reset-adds-entry" and finding.get("k3"):
+        return "C17-K3"
     if finding.get("clause") == "wedge-raises" and finding.get("k2"):
         return "C17-K2"
     return None
 
 
 def nontrivial(case, obs):
+    if case["kind"] == "g2":
+        if case["sub"] == "indices":
+            return len(obs.get("calls", [])) >= 2 and all("rows" in c.get("after", {}) and any(r["removed"] == ["b", True] for r in c["after"]["rows"]) for c in obs["calls"])
+        c = obs.get("calls", [{}])
+        return "rows" in c[0].get("after", {}) and any(r["removed"] == ["b", True] for r in c[0]["after"]["rows"]) and "rows" in obs.get("third", {})
     if case["kind"] == "mdoc":
         if case.get("malformed") or "raise" in obs.get("parsed", {"raise": 1}):
             return False
@@ -1732,16 +2629,34 @@ def _bucket(n):
 
 
 def stats(case, obs, resps):
+    if case["kind"] == "g2":
+        d = {"kind": "g2:" + case["sub"]}
+        if case["sub"] == "indices":
+            d["g2_calls_with_same_array"] = len(case["texts"])
+            d["g2_index_input"] = ("list" if case.get("as_list") else "ndarray:" + case["dtype"]) + f",from1={case['from1']}"
+        else:
+            d["g2_first_object_ops"] = [st["k"] for st in case["steps1"]]
+            d["g2_rewrite_same_size"] = bool(case.get("same_size"))
+        return d
     if case["kind"] == "mdoc":
-        d = {"kind": "mdoc" + ("-malformed:" + case["malformed"] if case.get("malformed") else "")}
+        d = {"kind": "mdoc" + ("-malformed:" + case["malformed"] if case.get("malformed") else "") + ("-odd:" + case["odd"] if case.get("odd") else "")}
+        r0 = resps[0] if resps and isinstance(resps[0], dict) else {}
+        if r0.get("parsed") is None and "why" in r0:
+            # the model reads nothing: the code must raise ("raises"), or a named class outside the quantifier that the judge SKIPS
+            d["mdoc_outside_class"] = r0["why"] + (":impl-raises" if "raise" in obs.get("parsed", {}) else ":impl-reads")
+        elif "strict" in r0:
+            d["mdoc_reader_model"] = "strict" if r0["strict"] else "extended-only (duplicate header key / float() tilt spelling)"
         P = obs.get("parsed", {})
         if "rows" in P:
             d["mdoc_images"] = _bucket(len(P["rows"]))
             d["mdoc_sid"] = P["sid"]
             d["mdoc_cell_types"] = sorted({c[0] for r in P["rows"] for c in r["cells"]} | {v[0] for _, v in P["info"]})
             d["mdoc_titles"] = len(P["titles"])
-            d["mdoc_steps"] = [("sort-reset" if s.get("reset") else "sort") if s["k"] == "sort" else ("remove-kept" if s.get("kept_only", True) else "remove-all")
-                               for s in case["steps"]] or ["none"]
+            d["mdoc_steps"] = [(("sort-reset" if s.get("reset") else "sort") if s["k"] == "sort" else ("remove-kept" if s.get("kept_only", True) else "remove-all"))
+                               + ("(keyword omitted)" if s.get("omit_kw") else "") for s in case["steps"]] or ["none"]
+            d["mdoc_write_kw"] = "omitted" if case.get("write_removed", False) is None else "explicit"
+            if P["sid"] != "ZValue" and any(s["k"] == "sort" and s.get("reset") for s in case["steps"]):
+                d["mdoc_frameset_reset"] = True
             A = obs.get("after", {})
             d["mdoc_ops_outcome"] = "raise" if "raise" in A else f"removed:{_bucket(sum(1 for r in A['rows'] if r['removed'] == ['b', True])) if any(r['removed'] == ['b', True] for r in A['rows']) else 0}"
             d["mdoc_write_removed"] = case.get("write_removed", False)
@@ -1755,15 +2670,24 @@ def stats(case, obs, resps):
         return d
     if case["kind"] == "load":
         d = {"kind": "load:" + case["sub"], "load_rows": _bucket(len(case.get("vals", case.get("rows", case.get("tilts", [])))) or 1)}
+        if case.get("col_order") and (case["sub"] == "gctf" or case.get("content") == "gctf"):
+            d["load_gctf_column_order"] = case["col_order"]
         if case["sub"].endswith("_in"):
             d["load_input"] = case["sub"] + ":" + case["input"] + (":" + (case.get("ext") or "noext") if case["input"] == "file" and "ext" in case else "") + \
                 (":empty" if case.get("vals") == [] else "") + (":" + case["file_type"].lower() if "file_type" in case else "") + \
                 (":width" + str(case["width"]) if "width" in case else "")
             d["load_outcome"] = "raise" if isinstance(obs.get("out"), dict) and "raise" in obs["out"] else "values"
+            if case.get("file_type", 0) is None:
+                d["load_file_type_kw"] = "omitted"
             if resps and isinstance(resps[0], dict):
                 d["load_model_reader"] = str(resps[0].get("reader"))
         return d
+    if case["kind"] == "load" and case.get("col_order"):
+        pass
     return {"kind": "wedge", "wedge_tomograms": len(case["tomos"]), "wedge_ctf": str(case["ctf"]), "wedge_dose": str(case["dose"]),
+            "wedge_gctf_column_order": str(case.get("col_order")) if case["ctf"] == "gctf" else "-",
+            "wedge_tilt_files_unsorted": bool(case.get("tilts_unsorted")), "wedge_tables_permuted": bool(case.get("table_perm")),
+            "wedge_tables_extra_rows": bool(case.get("table_extra")), "wedge_keywords_omitted": sorted(case.get("omit", [])) or ["none"],
             "wedge_inputs": [f"list:{case['tomo_list']}", f"dims:{case['dims_mode']}", f"z:{case['z_mode']}" + ("-int" if case.get("z_int_array") else ""),
                              "tlt:" + ("mdoc" if case.get("tlt_from_mdoc") else "file")],
             "wedge_tilts": [_bucket(len(t["tilts"])) for t in case["tomos"]],
@@ -1772,6 +2696,19 @@ def stats(case, obs, resps):
 
 
 def shrink(case):
+    if case["kind"] == "g2":
+        if case["sub"] == "indices":
+            if len(case["texts"]) > 2:
+                yield dict(case, texts=case["texts"][:2])
+            if len(case["idx"]) > 1:
+                yield dict(case, idx=case["idx"][:1])
+        else:
+            if len(case["steps1"]) > 1:
+                for i in range(len(case["steps1"])):
+                    yield dict(case, steps1=case["steps1"][:i] + case["steps1"][i + 1:])
+            if case["steps2"]:
+                yield dict(case, steps2=[])
+        return
     if case["kind"] == "mdoc":
         lines = case["text"].split("\n")
         sec = [i for i, l in enumerate(lines) if l.startswith("[ZValue") or l.startswith("[FrameSet")]
@@ -1834,6 +2771,8 @@ def shrink(case):
 
 
 def sample_view(case):
+    if case["kind"] == "g2":
+        return {k: ((v[:300] + "...") if isinstance(v, str) and len(v) > 300 else ([x[:200] for x in v] if k == "texts" else v)) for k, v in case.items()}
     if case["kind"] == "mdoc":
         return dict(kind="mdoc", text_head=case["text"][:700], n_lines=case["text"].count("\n"), steps=case.get("steps"), write_removed=case.get("write_removed"),
                     malformed=case.get("malformed"))
@@ -1873,6 +2812,7 @@ LEVEL_TEXT = ("Lean 4 theorems about an executable character-level model of Mdoc
               "Angstrom->micron factors, mean expression, wedge column list and assignments, STAR specifier, groupby/agg of sg->em, type chains and extension / "
               "file-type dispatch tables of tlt_load, total_dose_load, defocus_load) and by a differential run of the real functions against the model")
 LEVEL_NOTE = ("trusted: Lean kernel; translator anchors; harness canonicalisation of pandas cells; Python float repr of <=15-digit decimals (probed); pandas sort on distinct keys; "
-              "numeric loader outputs are compared with rel. tolerance 2e-6 (float32) / 1e-9 (float64); Starfile I/O belongs to C02")
+              "numeric loader outputs are compared with rel. tolerance 2e-6 (float32) / 1e-9 (float64); Starfile I/O belongs to C02; open findings C17-K1 (exponent-form floats "
+              "re-read as text) and C17-K3 (reset_z_value on a FrameSet mdoc adds a ZValue entry to every image)")
 TECHNIQUE = "Lean 4 proof (list induction over lines/characters, merge-sort permutation, zip/flatten indexing, field identities) + regenerated constants + differential correspondence"
 DESIGN_REF = "DESIGN.md section 4, C17"
